@@ -19,60 +19,142 @@ Record ext (step : N) (g g' : gstate) : Prop := {
   x_next : g_next g' = g_next g;
   x_rollers : g_rollers g' = g_rollers g;
   x_lock : g_htlock g' = g_htlock g;
-  x_hooks : exists k, g_hooks g' = g_hooks g ++ repeat step k;
-  x_cache : forall f x, assoc f (g_htcache g) = Some x -> assoc f (g_htcache g') = Some x
+  x_hooks : exists k, g_hooks g' = g_hooks g ++ repeat step k
 }.
 
 Lemma ext_refl step g : ext step g g.
 Proof.
   constructor; try reflexivity.
-  - exists O. simpl. symmetry. apply app_nil_r.
-  - auto.
+  exists O. simpl. symmetry. apply app_nil_r.
 Qed.
 
 Lemma ext_trans step a b c : ext step a b -> ext step b c -> ext step a c.
 Proof.
-  intros [A1 A2 A3 A4 A5 [ka A6] A7] [B1 B2 B3 B4 B5 [kb B6] B7].
+  intros [A1 A2 A3 A4 A5 [ka A6]] [B1 B2 B3 B4 B5 [kb B6]].
   constructor; try congruence.
-  - exists (ka + kb)%nat. rewrite B6, A6, <- app_assoc, repeat_app. reflexivity.
-  - auto.
+  exists (ka + kb)%nat. rewrite B6, A6, <- app_assoc, repeat_app. reflexivity.
 Qed.
 
 (* ------------------------------------------------------------------ GetHtpasswdMatcher *)
-Lemma get_matcher_ext step e g f u r g' o :
-  get_matcher e g f u = (r, g', o) -> ext step g g'.
+Lemma users_eqb_eq a : forall b, users_eqb a b = true -> a = b.
+Proof.
+  unfold users_eqb. induction a as [|[x1 x2] a IH]; intros [|[y1 y2] b]; simpl; intros H; try discriminate.
+  - reflexivity.
+  - apply andb_true_iff in H as [H1 H2]. apply andb_true_iff in H1 as [E1 E2].
+    apply N.eqb_eq in E1. apply N.eqb_eq in E2. subst. f_equal. apply IH. exact H2.
+Qed.
+
+Lemma htfile_eqb_eq a b : htfile_eqb a b = true -> a = b.
+Proof.
+  unfold htfile_eqb. intros H. apply andb_true_iff in H as [H H3]. apply andb_true_iff in H as [H1 H2].
+  apply Bool.eqb_prop in H1. apply Bool.eqb_prop in H3. apply users_eqb_eq in H2.
+  destruct a, b; simpl in *. subst. reflexivity.
+Qed.
+
+(* the matcher only ever writes to the cache (and takes and releases the mutex) *)
+Record cext (g g' : gstate) : Prop := {
+  c_insts : g_insts g' = g_insts g;
+  c_hooks : g_hooks g' = g_hooks g;
+  c_socks : g_socks g' = g_socks g;
+  c_next : g_next g' = g_next g;
+  c_rollers : g_rollers g' = g_rollers g;
+  c_lock : g_htlock g' = g_htlock g
+}.
+
+Lemma cext_refl g : cext g g.
+Proof. constructor; reflexivity. Qed.
+
+Lemma cext_ext step g g' : cext g g' -> ext step g g'.
+Proof.
+  intros [A1 A2 A3 A4 A5 A6]. constructor; auto.
+  exists O. rewrite A2. simpl. symmetry. apply app_nil_r.
+Qed.
+
+(* the cache is transparent: with a cache that holds parsed files only, the answer of the matcher is the
+   answer the file gives now; only the cache is written, and it still holds parsed files only *)
+Definition cache_okl (c : list (N * htfile)) : Prop :=
+  forall f h, assoc f c = Some h -> h_present h = true /\ h_bad h = false.
+
+Lemma cache_okl_cons c f h : cache_okl c -> h_present h = true -> h_bad h = false -> cache_okl ((f, h) :: c).
+Proof.
+  intros C P B f' h' H. simpl in H. destruct (f' =? f).
+  - injection H as <-. split; assumption.
+  - apply C in H. exact H.
+Qed.
+
+Lemma lock_false_eta g c : g_htlock g = false -> set_htcache g c = set_htlock (set_htcache g c) false.
+Proof. destruct g; simpl; intros ->; reflexivity. Qed.
+
+Lemma lock_false_self g : g_htlock g = false -> g = set_htlock (set_htcache g (g_htcache g)) false.
+Proof. destruct g; simpl; intros ->; reflexivity. Qed.
+
+Lemma get_matcher_spec e g f u r g' o :
+  g_htlock g = false -> cache_okl (g_htcache g) -> get_matcher e g f u = (r, g', o) ->
+  (r, o) = lookup_now e f u /\ cext g g' /\ cache_okl (g_htcache g') /\
+  exists c', g' = set_htlock (set_htcache g c') false.
+Proof.
+  unfold get_matcher, get_matcher_gen, lookup_now. intros L C H. rewrite L in H.
+  assert (FAIL : cext g (set_htlock g (negb true))).
+  { constructor; simpl; try reflexivity. symmetry. exact L. }
+  pose proof (lock_false_self g L) as SELF.
+  assert (FAILS : set_htlock g (negb true) = set_htlock (set_htcache g (g_htcache g)) false) by reflexivity.
+  destruct (h_present (env_get e f)) eqn:P; cbn [negb] in *.
+  2:{ injection H as <- <- <-. split; [reflexivity|]. split; [exact FAIL|]. split; [exact C|]. eexists. exact FAILS. }
+  assert (INS : forall g1, g1 = set_htcache g ((f, env_get e f) :: g_htcache g) -> h_bad (env_get e f) = false ->
+                cext g g1 /\ cache_okl (g_htcache g1) /\ exists c', g1 = set_htlock (set_htcache g c') false).
+  { intros g1 -> B. split; [constructor; reflexivity|]. split; [apply cache_okl_cons; assumption|].
+    eexists. apply lock_false_eta. exact L. }
+  destruct (assoc f (g_htcache g)) as [h'|] eqn:A.
+  - destruct (htfile_eqb h' (env_get e f)) eqn:E.
+    + apply htfile_eqb_eq in E. subst h'. destruct (C _ _ A) as [_ B]. rewrite B.
+      destruct (assoc u (h_users (env_get e f))); injection H as <- <- <-;
+        (split; [reflexivity|]; split; [apply cext_refl|]; split; [exact C|]; eexists; exact SELF).
+    + destruct (h_bad (env_get e f)) eqn:B.
+      * injection H as <- <- <-. split; [reflexivity|]. split; [exact FAIL|]. split; [exact C|]. eexists. exact FAILS.
+      * destruct (assoc u (h_users (env_get e f))); injection H as <- <- <-;
+          (split; [reflexivity|]; apply INS; reflexivity).
+  - destruct (h_bad (env_get e f)) eqn:B.
+    + injection H as <- <- <-. split; [reflexivity|]. split; [exact FAIL|]. split; [exact C|]. eexists. exact FAILS.
+    + destruct (assoc u (h_users (env_get e f))); injection H as <- <- <-;
+        (split; [reflexivity|]; apply INS; reflexivity).
+Qed.
+
+(* without any assumption on the cache: only the cache is written *)
+Lemma get_matcher_cext e g f u r g' o :
+  get_matcher e g f u = (r, g', o) -> cext g g'.
 Proof.
   unfold get_matcher, get_matcher_gen. intros H.
   destruct (g_htlock g) eqn:L.
-  { injection H as <- <- <-. apply ext_refl. }
-  destruct (assoc f (g_htcache g)) as [users|] eqn:C.
-  { destruct (assoc u users); injection H as <- <- <-; apply ext_refl. }
-  assert (Hfail : ext step g (set_htlock g (negb true))).
-  { constructor; simpl; try reflexivity.
-    - symmetry; exact L.
-    - exists O. simpl. symmetry. apply app_nil_r.
-    - auto. }
-  destruct (negb (h_present (env_get e f))).
-  { injection H as <- <- <-. exact Hfail. }
-  destruct (h_bad (env_get e f)).
-  { injection H as <- <- <-. exact Hfail. }
-  assert (Hins : ext step g (set_htcache g ((f, h_users (env_get e f)) :: g_htcache g))).
-  { constructor; simpl; try reflexivity.
-    - exists O. simpl. symmetry. apply app_nil_r.
-    - intros f' x Hx. destruct (f' =? f) eqn:E; [|exact Hx].
-      apply N.eqb_eq in E. subst f'. rewrite C in Hx. discriminate. }
-  destruct (assoc u (h_users (env_get e f))); injection H as <- <- <-; exact Hins.
+  { injection H as <- <- <-. apply cext_refl. }
+  assert (FAIL : cext g (set_htlock g (negb true))).
+  { constructor; simpl; try reflexivity. symmetry. exact L. }
+  assert (INS : cext g (set_htcache g ((f, env_get e f) :: g_htcache g))) by (constructor; reflexivity).
+  destruct (negb (h_present (env_get e f))); [injection H as <- <- <-; exact FAIL|].
+  destruct (assoc f (g_htcache g)) as [h'|].
+  - destruct (htfile_eqb h' (env_get e f)).
+    + destruct (assoc u (h_users h')); injection H as <- <- <-; apply cext_refl.
+    + destruct (h_bad (env_get e f)); [injection H as <- <- <-; exact FAIL|].
+      destruct (assoc u (h_users (env_get e f))); injection H as <- <- <-; exact INS.
+  - destruct (h_bad (env_get e f)); [injection H as <- <- <-; exact FAIL|].
+    destruct (assoc u (h_users (env_get e f))); injection H as <- <- <-; exact INS.
 Qed.
+
+Lemma get_matcher_ext step e g f u r g' o :
+  get_matcher e g f u = (r, g', o) -> ext step g g'.
+Proof. intros H. apply cext_ext. eapply get_matcher_cext; eauto. Qed.
 
 Lemma get_matcher_no_hang e g f u r g' o :
   g_htlock g = false -> get_matcher e g f u = (r, g', o) -> r <> RHang.
 Proof.
   unfold get_matcher, get_matcher_gen. intros L H. rewrite L in H.
-  destruct (assoc f (g_htcache g)) as [users|].
-  { destruct (assoc u users); injection H as <- <- <-; discriminate. }
   destruct (negb (h_present (env_get e f))); [injection H as <- <- <-; discriminate|].
-  destruct (h_bad (env_get e f)); [injection H as <- <- <-; discriminate|].
-  destruct (assoc u (h_users (env_get e f))); injection H as <- <- <-; discriminate.
+  destruct (assoc f (g_htcache g)) as [h'|].
+  - destruct (htfile_eqb h' (env_get e f)).
+    + destruct (assoc u (h_users h')); injection H as <- <- <-; discriminate.
+    + destruct (h_bad (env_get e f)); [injection H as <- <- <-; discriminate|].
+      destruct (assoc u (h_users (env_get e f))); injection H as <- <- <-; discriminate.
+  - destruct (h_bad (env_get e f)); [injection H as <- <- <-; discriminate|].
+    destruct (assoc u (h_users (env_get e f))); injection H as <- <- <-; discriminate.
 Qed.
 
 Lemma get_matcher_ok_some e g f u g' o :
@@ -80,11 +162,14 @@ Lemma get_matcher_ok_some e g f u g' o :
 Proof.
   unfold get_matcher, get_matcher_gen. intros H.
   destruct (g_htlock g); [discriminate|].
-  destruct (assoc f (g_htcache g)) as [users|].
-  { destruct (assoc u users) eqn:E; [|discriminate]. injection H as <- <-. eauto. }
   destruct (negb (h_present (env_get e f))); [discriminate|].
-  destruct (h_bad (env_get e f)); [discriminate|].
-  destruct (assoc u (h_users (env_get e f))); [|discriminate]. injection H as <- <-. eauto.
+  destruct (assoc f (g_htcache g)) as [h'|].
+  - destruct (htfile_eqb h' (env_get e f)).
+    + destruct (assoc u (h_users h')); [|discriminate]. injection H as <- <-. eauto.
+    + destruct (h_bad (env_get e f)); [discriminate|].
+      destruct (assoc u (h_users (env_get e f))); [|discriminate]. injection H as <- <-. eauto.
+  - destruct (h_bad (env_get e f)); [discriminate|].
+    destruct (assoc u (h_users (env_get e f))); [|discriminate]. injection H as <- <-. eauto.
 Qed.
 
 (* ------------------------------------------------------------------ executeDirectives *)
@@ -128,46 +213,32 @@ Proof.
       * congruence.
 Qed.
 
-
-Lemma exec_effs_hooks_same step e effs : forall g l r g' l',
-  no_on effs = true -> exec_effs step e effs g l = (r, g', l') -> g_hooks g' = g_hooks g.
+(* the cache holds parsed files only, whatever is executed *)
+Lemma get_matcher_cache_ok e g f u r g' o :
+  cache_okl (g_htcache g) -> get_matcher e g f u = (r, g', o) -> cache_okl (g_htcache g').
 Proof.
-  induction effs as [|x effs IH]; intros g l r g' l' N H; simpl in H.
-  - injection H as <- <- <-. reflexivity.
-  - simpl in N. apply andb_true_iff in N as [N1 N2].
-    destruct x as [|n|f size ok|f u].
-    + injection H as <- <- <-. reflexivity.
-    + destruct n; [|discriminate]. apply IH in H; [|exact N2]. rewrite H. simpl. apply app_nil_r.
-    + apply IH in H; [|exact N2]. exact H.
-    + destruct (get_matcher e g f u) as [[r1 g1] o1] eqn:M.
-      pose proof (get_matcher_ext step _ _ _ _ _ _ _ M) as X.
-      assert (HK : g_hooks g1 = g_hooks g).
-      { revert M. unfold get_matcher, get_matcher_gen.
-        destruct (g_htlock g); [intros M; injection M as <- <- <-; reflexivity|].
-        destruct (assoc f (g_htcache g)) as [users|].
-        { destruct (assoc u users); intros M; injection M as <- <- <-; reflexivity. }
-        destruct (negb (h_present (env_get e f))); [intros M; injection M as <- <- <-; reflexivity|].
-        destruct (h_bad (env_get e f)); [intros M; injection M as <- <- <-; reflexivity|].
-        destruct (assoc u (h_users (env_get e f))); intros M; injection M as <- <- <-; reflexivity. }
-      destruct r1.
-      * destruct o1 as [pw|].
-        -- apply IH in H; [|exact N2]. congruence.
-        -- injection H as <- <- <-. exact HK.
-      * injection H as <- <- <-. exact HK.
-      * injection H as <- <- <-. exact HK.
+  intros C H. destruct (g_htlock g) eqn:L.
+  - unfold get_matcher, get_matcher_gen in H. rewrite L in H. injection H as <- <- <-. exact C.
+  - destruct (get_matcher_spec _ _ _ _ _ _ _ L C H) as (_ & _ & C1 & _). exact C1.
 Qed.
 
-Lemma exec_effs_no_auth_same step e effs : forall g l r g' l',
-  no_auth effs = true -> exec_effs step e effs g l = (r, g', l') ->
-  g_htcache g' = g_htcache g /\ g_htlock g' = g_htlock g.
+Lemma exec_effs_cache_ok step e effs : forall g l r g' l',
+  cache_okl (g_htcache g) -> exec_effs step e effs g l = (r, g', l') -> cache_okl (g_htcache g').
 Proof.
-  induction effs as [|x effs IH]; intros g l r g' l' N H; simpl in H.
-  - injection H as <- <- <-. split; reflexivity.
-  - simpl in N. apply andb_true_iff in N as [N1 N2].
-    destruct x as [|n|f size ok|f u]; try discriminate.
-    + injection H as <- <- <-. split; reflexivity.
-    + apply IH in H; [|exact N2]. exact H.
-    + apply IH in H; [|exact N2]. exact H.
+  induction effs as [|x effs IH]; intros g l r g' l' C H; simpl in H.
+  - injection H as <- <- <-. exact C.
+  - destruct x as [|n|f size ok|f u].
+    + injection H as <- <- <-. exact C.
+    + eapply IH; [|exact H]; assumption.
+    + eapply IH; [|exact H]; assumption.
+    + destruct (get_matcher e g f u) as [[r1 g1] o1] eqn:M.
+      pose proof (get_matcher_cache_ok _ _ _ _ _ _ _ C M) as C1.
+      destruct r1.
+      * destruct o1 as [pw|].
+        -- eapply IH; [|exact H]; exact C1.
+        -- injection H as <- <- <-. exact C1.
+      * injection H as <- <- <-. exact C1.
+      * injection H as <- <- <-. exact C1.
 Qed.
 
 Lemma exec_effs_no_log_startups step e effs : forall g l r g' l',
@@ -186,6 +257,32 @@ Proof.
         -- injection H as <- <- <-. reflexivity.
       * injection H as <- <- <-. reflexivity.
       * injection H as <- <- <-. reflexivity.
+Qed.
+
+(* ------------------------------------------------------------------ ValidateAndExecuteDirectives *)
+Lemma ext_set_hooks_back step g g1 : ext step g g1 -> ext step g (set_hooks g1 (g_hooks g)).
+Proof.
+  intros [A1 A2 A3 A4 A5 A6]. constructor; simpl; auto.
+  exists O. simpl. symmetry. apply app_nil_r.
+Qed.
+
+Lemma do_validate_ext step e c g r g' :
+  do_validate step e c g = (r, g') ->
+  ext step g g' /\ (r <> ROk -> g_hooks g' = g_hooks g) /\ (g_htlock g = false -> r <> RHang) /\
+  (cache_okl (g_htcache g) -> cache_okl (g_htcache g')).
+Proof.
+  unfold do_validate. intros H.
+  destruct (negb (parse_ok c)).
+  { injection H as <- <-. split; [apply ext_refl|]. split; [reflexivity|]. split; [discriminate|auto]. }
+  destruct (exec_effs step e (c_effs c) g l0) as [[r1 g1] l] eqn:E1.
+  pose proof (exec_effs_ext _ _ _ _ _ _ _ _ E1) as X.
+  assert (NH : g_htlock g = false -> r1 <> RHang) by (intros L; eapply exec_effs_no_hang; eauto).
+  assert (CK : cache_okl (g_htcache g) -> cache_okl (g_htcache g1))
+    by (intros C; eapply exec_effs_cache_ok; eauto).
+  destruct r1; injection H as <- <-.
+  - split; [exact X|]. split; [congruence|]. split; assumption.
+  - split; [apply ext_set_hooks_back; exact X|]. split; [reflexivity|]. split; assumption.
+  - split; [apply ext_set_hooks_back; exact X|]. split; [reflexivity|]. split; assumption.
 Qed.
 
 (* ------------------------------------------------------------------ startup callbacks *)
@@ -237,28 +334,26 @@ Proof.
   exists s2. repeat split; try congruence. lia.
 Qed.
 
+(* what startServers may touch: the socket table only *)
 Record sext (g g' : gstate) : Prop := {
   s_insts : g_insts g' = g_insts g;
   s_hooks : g_hooks g' = g_hooks g;
   s_cache : g_htcache g' = g_htcache g;
   s_lock : g_htlock g' = g_htlock g;
-  s_rollers : g_rollers g' = g_rollers g;
-  s_socks : socks_le (g_socks g) (g_socks g')
+  s_rollers : g_rollers g' = g_rollers g
 }.
 
 Lemma sext_refl g : sext g g.
-Proof. constructor; auto. apply socks_le_refl. Qed.
+Proof. constructor; auto. Qed.
 
 Lemma sext_trans a b c : sext a b -> sext b c -> sext a c.
 Proof.
-  intros [A1 A2 A3 A4 A5 A6] [B1 B2 B3 B4 B5 B6]. constructor; try congruence.
-  eapply socks_le_trans; eauto.
+  intros [A1 A2 A3 A4 A5] [B1 B2 B3 B4 B5]. constructor; congruence.
 Qed.
 
-Lemma dup_fd_sext g sid : sext g (dup_fd g sid).
+Lemma dup_fd_le g sid : socks_le (g_socks g) (g_socks (dup_fd g sid)).
 Proof.
-  constructor; simpl; try reflexivity.
-  intros s Hs.
+  simpl. intros s Hs.
   exists (if s_id s =? sid then {| s_id := s_id s; s_addr := s_addr s; s_fds := S (s_fds s) |} else s).
   split.
   - apply (in_map (fun s => if s_id s =? sid then {| s_id := s_id s; s_addr := s_addr s; s_fds := S (s_fds s) |} else s)) in Hs.
@@ -266,10 +361,9 @@ Proof.
   - destruct (s_id s =? sid); simpl; repeat split; lia.
 Qed.
 
-Lemma new_sock_sext g a : sext g (new_sock g a).
+Lemma new_sock_le g a : socks_le (g_socks g) (g_socks (new_sock g a)).
 Proof.
-  constructor; simpl; try reflexivity.
-  intros s Hs. exists s. repeat split; auto. apply in_or_app. left. exact Hs.
+  simpl. intros s Hs. exists s. repeat split; auto. apply in_or_app. left. exact Hs.
 Qed.
 
 Lemma start_servers_sext old addrs : forall g acc r g' srv,
@@ -279,13 +373,12 @@ Proof.
   - injection H as <- <- <-. split; [apply sext_refl|discriminate].
   - destruct (inherited a old) as [sid|].
     + apply IH in H as [H NH]. split; [|exact NH].
-      eapply sext_trans; [apply dup_fd_sext|exact H].
+      eapply sext_trans; [|exact H]. constructor; reflexivity.
     + destruct a as [n|].
       * apply IH in H as [H NH]. split; [|exact NH].
-        eapply sext_trans; [apply new_sock_sext|exact H].
-      * injection H as <- <- <-. split; [apply sext_refl|discriminate].
+        eapply sext_trans; [|exact H]. constructor; reflexivity.
+      * injection H as <- <- <-. split; [constructor; reflexivity|discriminate].
 Qed.
-
 
 Lemma start_servers_no_busy old addrs : forall g acc r g' srv,
   existsb is_busy addrs = false -> start_servers old addrs g acc = (r, g', srv) -> r = ROk.
@@ -298,83 +391,147 @@ Proof.
     + destruct a as [n|]; [eapply IH; eauto|discriminate].
 Qed.
 
-Lemma start_servers_fresh_safe addrs : forall g acc r g' srv,
-  listen_safe addrs = true -> start_servers [] addrs g acc = (r, g', srv) -> r <> ROk -> g' = g.
+(* --- closing what was opened gives the socket table back (in a well-formed table) --- *)
+Definition closed_again (acc : list (addr * N)) (socks : list sock) : list sock :=
+  fold_right (fun p socks => close_fd socks (snd p)) socks acc.
+
+Definition table_ok (socks : list sock) (next : N) : Prop :=
+  forall s, In s socks -> (1 <= s_fds s)%nat /\ s_id s < next.
+
+Lemma close_fd_dup socks sid next :
+  table_ok socks next ->
+  close_fd (map (fun s => if s_id s =? sid then {| s_id := s_id s; s_addr := s_addr s; s_fds := S (s_fds s) |} else s) socks) sid = socks.
 Proof.
-  intros g acc r g' srv LS H NR. destruct addrs as [|a addrs].
-  - simpl in H. injection H as <- <- <-. congruence.
-  - destruct a as [n|].
-    + simpl in LS. apply negb_true_iff in LS.
-      exfalso. apply NR. eapply (start_servers_no_busy [] (AEph n :: addrs)); eauto.
-    + simpl in H. injection H as <- <- <-. reflexivity.
+  induction socks as [|s socks IH]; intros T; [reflexivity|].
+  assert (Hs : (1 <= s_fds s)%nat) by (apply T; left; reflexivity).
+  assert (IH' := IH (fun x Hx => T x (or_intror Hx))).
+  unfold close_fd in *. cbn [map].
+  destruct (s_id s =? sid) eqn:E; cbn [s_id s_fds s_addr].
+  - rewrite E. cbn [filter s_fds pred Nat.eqb negb]. destruct s as [i a f]. cbn [s_id s_addr s_fds] in *.
+    destruct f as [|f]; [lia|]. cbn [Nat.eqb negb]. f_equal. exact IH'.
+  - rewrite E. cbn [filter]. destruct (s_fds s) as [|f] eqn:F; [lia|]. cbn [Nat.eqb negb]. f_equal. exact IH'.
 Qed.
 
-(* with inherited listeners the failing Listen is harmless only if it comes first *)
-Lemma start_servers_safe old addrs : forall g acc r g' srv,
-  listen_safe addrs = true -> inherited ABusy old = None ->
-  start_servers old addrs g acc = (r, g', srv) -> r <> ROk -> g' = g.
+Lemma close_fd_new socks next a :
+  table_ok socks next ->
+  close_fd (socks ++ [{| s_id := next; s_addr := a; s_fds := 1 |}]) next = socks.
 Proof.
-  intros g acc r g' srv LS NI H NR. destruct addrs as [|a addrs].
-  - simpl in H. injection H as <- <- <-. congruence.
-  - destruct a as [n|].
-    + simpl in LS. apply negb_true_iff in LS.
-      exfalso. apply NR. eapply (start_servers_no_busy old (AEph n :: addrs)); eauto.
-    + simpl in H. rewrite NI in H. injection H as <- <- <-. reflexivity.
+  induction socks as [|s socks IH]; intros T.
+  - unfold close_fd. cbn [app map s_id]. rewrite N.eqb_refl. reflexivity.
+  - assert (Hs : (1 <= s_fds s)%nat /\ s_id s < next) by (apply T; left; reflexivity).
+    assert (IH' := IH (fun x Hx => T x (or_intror Hx))).
+    unfold close_fd in *. cbn [app map].
+    destruct (s_id s =? next) eqn:E; [apply N.eqb_eq in E; lia|].
+    cbn [filter]. destruct (s_fds s) as [|f] eqn:F; [lia|]. cbn [Nat.eqb negb]. f_equal. exact IH'.
+Qed.
+
+Lemma close_fd_ok socks sid next : table_ok socks next -> table_ok (close_fd socks sid) next.
+Proof.
+  intros T s Hs. unfold close_fd in Hs. apply filter_In in Hs as [Hs NZ].
+  apply in_map_iff in Hs as (s0 & E & Hs0). destruct (T s0 Hs0) as [F I].
+  destruct (s_id s0 =? sid); subst s; simpl in *.
+  - split; [|exact I]. destruct (s_fds s0) as [|[|f]]; simpl in *; try discriminate; lia.
+  - split; assumption.
+Qed.
+
+Lemma closed_again_ok acc socks next : table_ok socks next -> table_ok (closed_again acc socks) next.
+Proof.
+  induction acc as [|p acc IH]; intros T; simpl; [exact T|]. apply close_fd_ok. apply IH. exact T.
+Qed.
+
+Lemma table_ok_mono socks n m : n <= m -> table_ok socks n -> table_ok socks m.
+Proof. intros L T s Hs. destruct (T s Hs). split; [assumption|lia]. Qed.
+
+Lemma dup_fd_ok g sid : socks_ok g -> socks_ok (dup_fd g sid).
+Proof.
+  intros T s Hs. simpl in Hs. apply in_map_iff in Hs as (s0 & E & Hs0). destruct (T s0 Hs0) as [F I].
+  simpl. destruct (s_id s0 =? sid); subst s; simpl; split; auto.
+Qed.
+
+Lemma new_sock_ok g a : socks_ok g -> socks_ok (new_sock g a).
+Proof.
+  intros T s Hs. simpl in Hs. apply in_app_or in Hs as [Hs|[Hs|[]]]; simpl.
+  - destruct (T s Hs). split; [assumption|lia].
+  - subst s. simpl. split; [auto|lia].
+Qed.
+
+Lemma closed_again_app acc p socks :
+  closed_again (acc ++ [p]) socks = closed_again acc (close_fd socks (snd p)).
+Proof. unfold closed_again. rewrite fold_right_app. reflexivity. Qed.
+
+(* a failing startServers leaves the socket table as it found it; a succeeding one closes nothing *)
+Lemma start_servers_socks old addrs : forall g acc r g' srv,
+  socks_ok g -> start_servers old addrs g acc = (r, g', srv) ->
+  socks_ok g' /\ g_next g <= g_next g' /\
+  (r = ROk -> socks_le (g_socks g) (g_socks g')) /\
+  (r <> ROk -> g_socks g' = closed_again acc (g_socks g)).
+Proof.
+  induction addrs as [|a addrs IH]; intros g acc r g' srv T H; simpl in H.
+  - injection H as <- <- <-. split; [exact T|]. split; [lia|]. split; [intros _; apply socks_le_refl|congruence].
+  - destruct (inherited a old) as [sid|].
+    + destruct (IH _ _ _ _ _ (dup_fd_ok g sid T) H) as (T' & N' & OK & KO).
+      split; [exact T'|]. split; [exact N'|]. split.
+      * intros E. eapply socks_le_trans; [apply dup_fd_le|apply OK; exact E].
+      * intros E. rewrite (KO E), closed_again_app. simpl.
+        rewrite (close_fd_dup _ _ _ T). reflexivity.
+    + destruct a as [n|].
+      * destruct (IH _ _ _ _ _ (new_sock_ok g (AEph n) T) H) as (T' & N' & OK & KO).
+        simpl in N'. split; [exact T'|]. split; [lia|]. split.
+        -- intros E. eapply socks_le_trans; [apply new_sock_le|apply OK; exact E].
+        -- intros E. rewrite (KO E), closed_again_app. simpl.
+           rewrite (close_fd_new _ _ _ T). reflexivity.
+      * injection H as <- <- <-. split; [|split; [simpl; lia|split; [discriminate|reflexivity]]].
+        intros s Hs. exact (closed_again_ok acc _ _ T s Hs).
 Qed.
 
 (* ------------------------------------------------------------------ nothing is ever lost *)
-(* what ANY call of startWithListenerFds may do to the global state: registries and caches only grow,
-   no descriptor is closed, the instance list and the mutex are as before *)
+(* what ANY call of startWithListenerFds may do to the registries: they only grow, the instance list and
+   the mutex are as before (the socket table is treated separately: it needs a well-formed table) *)
 Record grow (step : N) (g g' : gstate) : Prop := {
   w_insts : g_insts g' = g_insts g;
   w_lock : g_htlock g' = g_htlock g;
   w_hooks : exists k, g_hooks g' = g_hooks g ++ repeat step k;
-  w_cache : forall f x, assoc f (g_htcache g) = Some x -> assoc f (g_htcache g') = Some x;
-  w_rollers : forall f x, assoc f (g_rollers g) = Some x -> assoc f (g_rollers g') = Some x;
-  w_socks : socks_le (g_socks g) (g_socks g')
+  w_rollers : forall f x, assoc f (g_rollers g) = Some x -> assoc f (g_rollers g') = Some x
 }.
 
 Lemma grow_refl step g : grow step g g.
 Proof.
   constructor; auto.
-  - exists O. simpl. symmetry. apply app_nil_r.
-  - apply socks_le_refl.
+  exists O. simpl. symmetry. apply app_nil_r.
 Qed.
 
 Lemma grow_trans step a b c : grow step a b -> grow step b c -> grow step a c.
 Proof.
-  intros [A1 A2 [ka A3] A4 A5 A6] [B1 B2 [kb B3] B4 B5 B6]. constructor; try congruence; auto.
-  - exists (ka + kb)%nat. rewrite B3, A3, <- app_assoc, repeat_app. reflexivity.
-  - eapply socks_le_trans; eauto.
+  intros [A1 A2 [ka A3] A5] [B1 B2 [kb B3] B5]. constructor; try congruence; auto.
+  exists (ka + kb)%nat. rewrite B3, A3, <- app_assoc, repeat_app. reflexivity.
 Qed.
 
 Lemma ext_grow step g g' : ext step g g' -> grow step g g'.
 Proof.
-  intros [A1 A2 A3 A4 A5 A6 A7]. constructor; auto.
-  - intros f x. rewrite A4. auto.
-  - rewrite A2. apply socks_le_refl.
+  intros [A1 A2 A3 A4 A5 A6]. constructor; auto.
+  intros f x. rewrite A4. auto.
 Qed.
 
 Lemma rext_grow step g g' : rext g g' -> grow step g g'.
 Proof.
   intros [A1 A2 A3 A4 A5 A6 A7]. constructor; auto.
-  - exists O. rewrite A2. simpl. symmetry. apply app_nil_r.
-  - intros f x. rewrite A3. auto.
-  - rewrite A5. apply socks_le_refl.
+  exists O. rewrite A2. simpl. symmetry. apply app_nil_r.
 Qed.
 
 Lemma sext_grow step g g' : sext g g' -> grow step g g'.
 Proof.
-  intros [A1 A2 A3 A4 A5 A6]. constructor; auto.
+  intros [A1 A2 A3 A4 A5]. constructor; auto.
   - exists O. rewrite A2. simpl. symmetry. apply app_nil_r.
-  - intros f x. rewrite A3. auto.
   - intros f x. rewrite A5. auto.
 Qed.
 
-Lemma start_with_grow step e c old g r g' oi :
-  start_with step e c old g = (r, g', oi) -> grow step g g'.
+Lemma grow_set_socks step g g' x n : grow step g g' -> grow step g (set_socks g' x n).
+Proof. intros [A1 A2 A3 A5]. constructor; auto. Qed.
+
+Lemma start_body_grow step e c old g r g' oi :
+  start_body step e c old g = (r, g', oi) -> grow step g g'.
 Proof.
-  unfold start_with. intros H.
+  unfold start_body. intros H.
   destruct (negb (parse_ok c)); [injection H as <- <- <-; apply grow_refl|].
   destruct (exec_effs step e (c_effs c) g l0) as [[r1 g1] l] eqn:E1.
   pose proof (ext_grow _ _ _ (exec_effs_ext _ _ _ _ _ _ _ _ E1)) as G1.
@@ -384,13 +541,85 @@ Proof.
   destruct r2; try (injection H as <- <- <-; eapply grow_trans; eauto).
   destruct (start_servers old (c_addrs c) g2 []) as [[r3 g3] srv] eqn:E3.
   pose proof (sext_grow step _ _ (proj1 (start_servers_sext _ _ _ _ _ _ _ E3))) as G3.
-  destruct r3; injection H as <- <- <-; eapply grow_trans; eauto; eapply grow_trans; eauto.
+  assert (G : grow step g g3) by (eapply grow_trans; eauto; eapply grow_trans; eauto).
+  destruct r3; injection H as <- <- <-; [exact G|apply grow_set_socks; exact G|apply grow_set_socks; exact G].
 Qed.
 
-Lemma start_with_no_hang step e c old g r g' oi :
-  g_htlock g = false -> start_with step e c old g = (r, g', oi) -> r <> RHang.
+Lemma start_with_grow step e c old g r g' oi :
+  start_with step e c old g = (r, g', oi) -> grow step g g'.
 Proof.
-  unfold start_with. intros L H.
+  unfold start_with. intros H.
+  destruct (start_body step e c old g) as [[r1 g1] oi1] eqn:B.
+  pose proof (start_body_grow _ _ _ _ _ _ _ _ B) as [A1 A2 A3 A5].
+  destruct r1; injection H as <- <- <-; constructor; simpl; auto;
+    exists O; simpl; symmetry; apply app_nil_r.
+Qed.
+
+(* a failing start puts the hook registry back exactly *)
+Lemma start_with_hooks step e c old g r g' oi :
+  start_with step e c old g = (r, g', oi) -> r <> ROk -> g_hooks g' = g_hooks g.
+Proof.
+  unfold start_with. intros H NR.
+  destruct (start_body step e c old g) as [[r1 g1] oi1].
+  destruct r1; injection H as <- <- <-; [congruence|reflexivity|reflexivity].
+Qed.
+
+(* the socket table: a failing start gives it back as it was, a succeeding one closes nothing *)
+Lemma start_body_socks step e c old g r g' oi :
+  socks_ok g -> start_body step e c old g = (r, g', oi) ->
+  socks_ok g' /\ (r = ROk -> socks_le (g_socks g) (g_socks g')) /\
+  (r <> ROk -> g_socks g' = g_socks g /\ g_next g' = g_next g).
+Proof.
+  unfold start_body. intros T H.
+  assert (SAME : forall ga, g_socks ga = g_socks g -> g_next ga = g_next g ->
+                 socks_ok ga /\ (RErr = ROk -> socks_le (g_socks g) (g_socks ga)) /\
+                 (g_socks ga = g_socks g /\ g_next ga = g_next g)).
+  { intros ga S1 S2. split; [|split; [discriminate|split; assumption]].
+    intros s Hs. rewrite S1 in Hs. rewrite S2. apply T. exact Hs. }
+  destruct (negb (parse_ok c)).
+  { injection H as <- <- <-. destruct (SAME g eq_refl eq_refl) as (A & _ & B).
+    split; [exact A|]. split; [discriminate|intros _; exact B]. }
+  destruct (exec_effs step e (c_effs c) g l0) as [[r1 g1] l] eqn:E1.
+  pose proof (exec_effs_ext _ _ _ _ _ _ _ _ E1) as X1.
+  pose proof (x_socks _ _ _ X1) as S1. pose proof (x_next _ _ _ X1) as N1.
+  destruct r1;
+    try (injection H as <- <- <-; destruct (SAME g1 S1 N1) as (A & _ & B);
+         split; [exact A|]; split; [discriminate|intros _; exact B]).
+  destruct (run_startups (l_startups l) g1) as [r2 g2] eqn:E2.
+  pose proof (proj1 (run_startups_rext _ _ _ _ E2)) as X2.
+  assert (S2 : g_socks g2 = g_socks g) by (rewrite (r_socks _ _ X2); exact S1).
+  assert (N2 : g_next g2 = g_next g) by (rewrite (r_next _ _ X2); exact N1).
+  destruct r2;
+    try (injection H as <- <- <-; destruct (SAME g2 S2 N2) as (A & _ & B);
+         split; [exact A|]; split; [discriminate|intros _; exact B]).
+  destruct (start_servers old (c_addrs c) g2 []) as [[r3 g3] srv] eqn:E3.
+  assert (T2 : socks_ok g2) by (destruct (SAME g2 S2 N2) as (A & _); exact A).
+  destruct (start_servers_socks _ _ _ _ _ _ _ T2 E3) as (T3 & N3 & OK & KO).
+  destruct r3; injection H as <- <- <-.
+  - split; [exact T3|]. split; [intros _; rewrite <- S2; apply OK; reflexivity|congruence].
+  - assert (S3 : g_socks g3 = g_socks g) by (rewrite KO; [exact S2|discriminate]).
+    destruct (SAME (set_socks g3 (g_socks g3) (g_next g2)) S3 N2) as (A & _ & B).
+    split; [exact A|]. split; [discriminate|intros _; exact B].
+  - assert (S3 : g_socks g3 = g_socks g) by (rewrite KO; [exact S2|discriminate]).
+    destruct (SAME (set_socks g3 (g_socks g3) (g_next g2)) S3 N2) as (A & _ & B).
+    split; [exact A|]. split; [discriminate|intros _; exact B].
+Qed.
+
+Lemma start_with_socks step e c old g r g' oi :
+  socks_ok g -> start_with step e c old g = (r, g', oi) ->
+  socks_ok g' /\ (r = ROk -> socks_le (g_socks g) (g_socks g')) /\
+  (r <> ROk -> g_socks g' = g_socks g /\ g_next g' = g_next g).
+Proof.
+  unfold start_with. intros T H.
+  destruct (start_body step e c old g) as [[r1 g1] oi1] eqn:B.
+  pose proof (start_body_socks _ _ _ _ _ _ _ _ T B) as S.
+  destruct r1; injection H as <- <- <-; exact S.
+Qed.
+
+Lemma start_body_no_hang step e c old g r g' oi :
+  g_htlock g = false -> start_body step e c old g = (r, g', oi) -> r <> RHang.
+Proof.
+  unfold start_body. intros L H.
   destruct (negb (parse_ok c)); [injection H as <- <- <-; discriminate|].
   destruct (exec_effs step e (c_effs c) g l0) as [[r1 g1] l] eqn:E1.
   pose proof (exec_effs_no_hang _ _ _ _ _ _ _ _ L E1) as N1.
@@ -403,10 +632,19 @@ Proof.
   destruct r3; injection H as <- <- <-; congruence.
 Qed.
 
-Lemma start_with_ok_some step e c old g g' oi :
-  start_with step e c old g = (ROk, g', oi) -> exists ni, oi = Some ni.
+Lemma start_with_no_hang step e c old g r g' oi :
+  g_htlock g = false -> start_with step e c old g = (r, g', oi) -> r <> RHang.
 Proof.
-  unfold start_with. intros H.
+  unfold start_with. intros L H.
+  destruct (start_body step e c old g) as [[r1 g1] oi1] eqn:B.
+  pose proof (start_body_no_hang _ _ _ _ _ _ _ _ L B) as NH.
+  destruct r1; injection H as <- <- <-; exact NH.
+Qed.
+
+Lemma start_body_ok_some step e c old g g' oi :
+  start_body step e c old g = (ROk, g', oi) -> exists ni, oi = Some ni.
+Proof.
+  unfold start_body. intros H.
   destruct (negb (parse_ok c)); [discriminate|].
   destruct (exec_effs step e (c_effs c) g l0) as [[r1 g1] l].
   destruct r1; try discriminate.
@@ -414,6 +652,14 @@ Proof.
   destruct r2; try discriminate.
   destruct (start_servers old (c_addrs c) g2 []) as [[r3 g3] srv].
   destruct r3; try discriminate. injection H as <- <-. eauto.
+Qed.
+
+Lemma start_with_ok_some step e c old g g' oi :
+  start_with step e c old g = (ROk, g', oi) -> exists ni, oi = Some ni.
+Proof.
+  unfold start_with. intros H.
+  destruct (start_body step e c old g) as [[r1 g1] oi1] eqn:B.
+  destruct r1; try discriminate. injection H as <- <-. eapply start_body_ok_some; eauto.
 Qed.
 
 (* every attempt leaves the mutex as it found it *)
@@ -432,17 +678,13 @@ Proof.
   - unfold do_load in H. destruct (start_with step e c [] g) as [[r1 g1] oi] eqn:S.
     pose proof (w_lock _ _ _ (start_with_grow _ _ _ _ _ _ _ _ S)) as L.
     destruct r1; [destruct oi|..]; injection H as <- <-; simpl; exact L.
-  - unfold do_validate in H. destruct (negb (parse_ok c)); [injection H as <- <-; reflexivity|].
-    destruct (exec_effs step e (c_effs c) g l0) as [[r1 g1] l] eqn:E1.
-    injection H as <- <-. exact (x_lock _ _ _ (exec_effs_ext _ _ _ _ _ _ _ _ E1)).
+  - exact (x_lock _ _ _ (proj1 (do_validate_ext _ _ _ _ _ _ H))).
   - eapply RL; eauto.
   - unfold do_sigusr1 in H. destruct (g_insts g) as [|old rest] eqn:GI; [injection H as <- <-; reflexivity|].
     destruct (do_reload step e c (set_hooks g [])) as [r1 g1] eqn:R.
     apply RL in R. simpl in R.
     destruct r1; injection H as <- <-; simpl; exact R.
-  - unfold do_validate in H. destruct (negb (parse_ok c)); [injection H as <- <-; reflexivity|].
-    destruct (exec_effs step e (c_effs c) g l0) as [[r1 g1] l] eqn:E1.
-    injection H as <- <-. exact (x_lock _ _ _ (exec_effs_ext _ _ _ _ _ _ _ _ E1)).
+  - exact (x_lock _ _ _ (proj1 (do_validate_ext _ _ _ _ _ _ H))).
 Qed.
 
 Lemma attempt_no_hang m step e c g r g' :
@@ -458,17 +700,13 @@ Proof.
   - unfold do_load in H. destruct (start_with step e c [] g) as [[r1 g1] oi] eqn:S.
     pose proof (start_with_no_hang _ _ _ _ _ _ _ _ L S) as NH.
     destruct r1; [destruct oi|..]; injection H as <- <-; congruence.
-  - unfold do_validate in H. destruct (negb (parse_ok c)); [injection H as <- <-; discriminate|].
-    destruct (exec_effs step e (c_effs c) g l0) as [[r1 g1] l] eqn:E1.
-    injection H as <- <-. eapply exec_effs_no_hang; eauto.
+  - destruct (do_validate_ext _ _ _ _ _ _ H) as (_ & _ & NH & _). auto.
   - eapply RL; eauto.
   - unfold do_sigusr1 in H. destruct (g_insts g) as [|old rest] eqn:GI; [injection H as <- <-; discriminate|].
     destruct (do_reload step e c (set_hooks g [])) as [r1 g1] eqn:R.
     apply RL in R; [|exact L].
     destruct r1; injection H as <- <-; congruence.
-  - unfold do_validate in H. destruct (negb (parse_ok c)); [injection H as <- <-; discriminate|].
-    destruct (exec_effs step e (c_effs c) g l0) as [[r1 g1] l] eqn:E1.
-    injection H as <- <-. eapply exec_effs_no_hang; eauto.
+  - destruct (do_validate_ext _ _ _ _ _ _ H) as (_ & _ & NH & _). auto.
 Qed.
 
 (* ------------------------------------------------------------------ a failed attempt loses nothing *)
@@ -488,29 +726,42 @@ Proof.
   - unfold do_load in H. destruct (start_with step e c [] g) as [[r1 g1] oi] eqn:S.
     pose proof (start_with_grow _ _ _ _ _ _ _ _ S) as G.
     destruct r1; [destruct oi|..]; injection H as <- <-; try exact G. congruence.
-  - unfold do_validate in H. destruct (negb (parse_ok c)); [injection H as <- <-; apply grow_refl|].
-    destruct (exec_effs step e (c_effs c) g l0) as [[r1 g1] l] eqn:E1.
-    injection H as <- <-. apply ext_grow. eapply exec_effs_ext; eauto.
+  - apply ext_grow. exact (proj1 (do_validate_ext _ _ _ _ _ _ H)).
   - eapply failed_reload_grow; eauto.
   - unfold do_sigusr1 in H. destruct (g_insts g) as [|old rest] eqn:GI; [injection H as <- <-; apply grow_refl|].
     destruct (do_reload step e c (set_hooks g [])) as [r1 g1] eqn:R.
     destruct r1; injection H as <- <-; try congruence.
-    + apply failed_reload_grow in R; [|discriminate]. destruct R as [R1 R2 R3 R4 R5 R6].
+    + apply failed_reload_grow in R; [|discriminate]. destruct R as [R1 R2 R3 R5].
       constructor; simpl in *; auto. exists O. simpl. symmetry. apply app_nil_r.
-    + apply failed_reload_grow in R; [|discriminate]. destruct R as [R1 R2 R3 R4 R5 R6].
+    + apply failed_reload_grow in R; [|discriminate]. destruct R as [R1 R2 R3 R5].
       constructor; simpl in *; auto. exists O. simpl. symmetry. apply app_nil_r.
-  - unfold do_validate in H. destruct (negb (parse_ok c)); [injection H as <- <-; apply grow_refl|].
-    destruct (exec_effs step e (c_effs c) g l0) as [[r1 g1] l] eqn:E1.
-    injection H as <- <-. apply ext_grow. eapply exec_effs_ext; eauto.
+  - apply ext_grow. exact (proj1 (do_validate_ext _ _ _ _ _ _ H)).
 Qed.
 
-(* the SIGUSR1 path puts the hook registry back exactly *)
+(* every failing attempt puts the hook registry back exactly (the SIGUSR1 path does so twice: the failing
+   Restart restores the purged registry it found, the signal handler then restores the saved one) *)
 Lemma failed_sigusr1_hooks step e c g r g' :
   do_sigusr1 step e c g = (r, g') -> r <> ROk -> g_hooks g' = g_hooks g.
 Proof.
   unfold do_sigusr1. intros H NR. destruct (g_insts g) as [|old rest]; [injection H as <- <-; reflexivity|].
   destruct (do_reload step e c (set_hooks g [])) as [r1 g1].
   destruct r1; injection H as <- <-; try congruence; reflexivity.
+Qed.
+
+Lemma failed_attempt_hooks m step e c g r g' :
+  attempt m step e c g = (r, g') -> r <> ROk -> g_hooks g' = g_hooks g.
+Proof.
+  destruct m; simpl; intros H NR.
+  - unfold do_load in H. destruct (start_with step e c [] g) as [[r1 g1] oi] eqn:S.
+    destruct r1; [destruct (start_with_ok_some _ _ _ _ _ _ _ S) as [ni ->]; injection H as <- <-; congruence|..];
+      injection H as <- <-; eapply start_with_hooks; eauto.
+  - destruct (do_validate_ext _ _ _ _ _ _ H) as (_ & HK & _). auto.
+  - unfold do_reload in H. destruct (g_insts g) as [|old rest]; [injection H as <- <-; reflexivity|].
+    destruct (start_with step e c (i_servers old) g) as [[r1 g1] oi] eqn:S.
+    destruct r1; [destruct (start_with_ok_some _ _ _ _ _ _ _ S) as [ni ->]; injection H as <- <-; congruence|..];
+      injection H as <- <-; eapply start_with_hooks; eauto.
+  - eapply failed_sigusr1_hooks; eauto.
+  - destruct (do_validate_ext _ _ _ _ _ _ H) as (_ & HK & _). auto.
 Qed.
 
 (* ------------------------------------------------------------------ well-formed states *)
@@ -529,12 +780,6 @@ Proof.
   - intros H. right. auto.
 Qed.
 
-Lemma inherited_busy_none old : srv_wf old -> inherited ABusy old = None.
-Proof.
-  intros W. destruct (inherited ABusy old) as [sid|] eqn:I; [|reflexivity].
-  apply inherited_in in I. exfalso. eapply W; eauto.
-Qed.
-
 Lemma start_servers_wf old addrs : forall g acc r g' srv,
   srv_wf old -> srv_wf acc -> start_servers old addrs g acc = (r, g', srv) -> srv_wf srv.
 Proof.
@@ -548,13 +793,13 @@ Proof.
       * eapply IH; [exact WO| |exact H].
         intros a' s' Hin. apply in_app_or in Hin as [Hin|[Hin|[]]]; [eapply WA; eauto|].
         injection Hin as <- <-. discriminate.
-      * injection H as <- <- <-. exact WA.
+      * injection H as <- <- <-. intros a' s' [].
 Qed.
 
-Lemma start_with_inst_wf step e c old g g' ni :
-  srv_wf old -> start_with step e c old g = (ROk, g', Some ni) -> srv_wf (i_servers ni).
+Lemma start_body_inst_wf step e c old g g' ni :
+  srv_wf old -> start_body step e c old g = (ROk, g', Some ni) -> srv_wf (i_servers ni).
 Proof.
-  unfold start_with. intros WO H.
+  unfold start_body. intros WO H.
   destruct (negb (parse_ok c)); [discriminate|].
   destruct (exec_effs step e (c_effs c) g l0) as [[r1 g1] l].
   destruct r1; try discriminate.
@@ -565,120 +810,193 @@ Proof.
   eapply start_servers_wf; [exact WO| |exact E3]. intros a sid [].
 Qed.
 
+Lemma start_with_inst_wf step e c old g g' ni :
+  srv_wf old -> start_with step e c old g = (ROk, g', Some ni) -> srv_wf (i_servers ni).
+Proof.
+  unfold start_with. intros WO H.
+  destruct (start_body step e c old g) as [[r1 g1] oi1] eqn:B.
+  destruct r1; try discriminate. injection H as E1 E2. subst g1 oi1. eapply start_body_inst_wf; eauto.
+Qed.
+
+Lemma fold_close_ok l : forall socks next, table_ok socks next -> table_ok (fold_left close_fd l socks) next.
+Proof.
+  induction l as [|sid l IH]; intros socks next T; simpl; [exact T|].
+  apply IH. apply close_fd_ok. exact T.
+Qed.
+
+Lemma stop_inst_ok g i : socks_ok g -> socks_ok (stop_inst g i).
+Proof. intros T. unfold socks_ok, stop_inst. simpl. apply fold_close_ok. exact T. Qed.
+
+Lemma start_with_cache_ok step e c old g r g' oi :
+  cache_ok g -> start_with step e c old g = (r, g', oi) -> cache_ok g'.
+Proof.
+  unfold start_with, cache_ok. intros C H.
+  destruct (start_body step e c old g) as [[r0 gb] oi0] eqn:B.
+  assert (CB : cache_okl (g_htcache gb)).
+  { revert B. unfold start_body.
+    destruct (negb (parse_ok c)); [intros B; injection B as <- <- <-; exact C|].
+    destruct (exec_effs step e (c_effs c) g l0) as [[r1 g1] l] eqn:E1.
+    pose proof (exec_effs_cache_ok _ _ _ _ _ _ _ _ C E1) as C1.
+    destruct r1; try (intros B; injection B as <- <- <-; exact C1).
+    destruct (run_startups (l_startups l) g1) as [r2 g2] eqn:E2.
+    pose proof (r_cache _ _ (proj1 (run_startups_rext _ _ _ _ E2))) as C2.
+    destruct r2; try (intros B; injection B as <- <- <-; rewrite C2; exact C1).
+    destruct (start_servers old (c_addrs c) g2 []) as [[r3 g3] srv] eqn:E3.
+    pose proof (s_cache _ _ (proj1 (start_servers_sext _ _ _ _ _ _ _ E3))) as C3.
+    destruct r3; intros B; injection B as <- <- <-; simpl; rewrite C3, C2; exact C1. }
+  destruct r0; injection H as <- <- <-; exact CB.
+Qed.
+
 Lemma reload_wf step e c g r g' : wf g -> do_reload step e c g = (r, g') -> wf g'.
 Proof.
-  unfold do_reload. intros W H. destruct (g_insts g) as [|old rest] eqn:GI; [injection H as <- <-; exact W|].
+  unfold do_reload. intros (W & T & C) H.
+  destruct (g_insts g) as [|old rest] eqn:GI; [injection H as <- <-; split; [rewrite GI|split]; assumption|].
   destruct (start_with step e c (i_servers old) g) as [[r1 g1] oi] eqn:S.
   pose proof (w_insts _ _ _ (start_with_grow _ _ _ _ _ _ _ _ S)) as GI1.
-  assert (W1 : wf g1) by (unfold wf; rewrite GI1; exact W).
+  destruct (start_with_socks _ _ _ _ _ _ _ _ T S) as (T1 & _).
+  pose proof (start_with_cache_ok _ _ _ _ _ _ _ _ C S) as C1.
+  assert (W1 : wf g1) by (split; [rewrite GI1, GI; exact W|split; [exact T1|exact C1]]).
   destruct r1; [destruct oi as [ni|]|..]; injection H as <- <-; try exact W1.
+  split; [|split; [apply stop_inst_ok; exact T1|exact C1]].
   intros i Hi. simpl in Hi. apply in_app_or in Hi as [Hi|[Hi|[]]].
-  - apply W. rewrite GI. right. exact Hi.
-  - subst i. eapply start_with_inst_wf; [|exact S]. apply W. rewrite GI. left. reflexivity.
+  - apply W. right. exact Hi.
+  - subst i. eapply start_with_inst_wf; [|exact S]. apply W. left. reflexivity.
 Qed.
 
 Lemma attempt_wf m step e c g r g' : wf g -> attempt m step e c g = (r, g') -> wf g'.
 Proof.
+  assert (VL : forall g r g', wf g -> do_validate step e c g = (r, g') -> wf g').
+  { clear. intros g r g' (W & T & C) H. destruct (do_validate_ext _ _ _ _ _ _ H) as (X & _ & _ & CK).
+    split; [|split].
+    - rewrite (x_insts _ _ _ X). exact W.
+    - intros s Hs. rewrite (x_socks _ _ _ X) in Hs. rewrite (x_next _ _ _ X). apply T. exact Hs.
+    - apply CK. exact C. }
   destruct m; simpl; intros W H.
   - unfold do_load in H. destruct (start_with step e c [] g) as [[r1 g1] oi] eqn:S.
     pose proof (w_insts _ _ _ (start_with_grow _ _ _ _ _ _ _ _ S)) as GI1.
-    assert (W1 : wf g1) by (unfold wf; rewrite GI1; exact W).
+    destruct W as (W & T & C).
+    destruct (start_with_socks _ _ _ _ _ _ _ _ T S) as (T1 & _).
+    pose proof (start_with_cache_ok _ _ _ _ _ _ _ _ C S) as C1.
+    assert (W1 : wf g1) by (split; [rewrite GI1; exact W|split; [exact T1|exact C1]]).
     destruct r1; [destruct oi as [ni|]|..]; injection H as <- <-; try exact W1.
+    split; [|split; [exact T1|exact C1]].
     intros i Hi. simpl in Hi. apply in_app_or in Hi as [Hi|[Hi|[]]].
-    + apply W1. exact Hi.
+    + rewrite GI1 in Hi. apply W. exact Hi.
     + subst i. eapply start_with_inst_wf; [|exact S]. intros a sid [].
-  - unfold do_validate in H. destruct (negb (parse_ok c)); [injection H as <- <-; exact W|].
-    destruct (exec_effs step e (c_effs c) g l0) as [[r1 g1] l] eqn:E1.
-    injection H as <- <-. unfold wf. rewrite (x_insts _ _ _ (exec_effs_ext _ _ _ _ _ _ _ _ E1)). exact W.
+  - eapply VL; eauto.
   - eapply reload_wf; eauto.
   - unfold do_sigusr1 in H. destruct (g_insts g) as [|old rest] eqn:GI; [injection H as <- <-; exact W|].
     destruct (do_reload step e c (set_hooks g [])) as [r1 g1] eqn:R.
     apply reload_wf in R; [|exact W].
     destruct r1; injection H as <- <-; exact R.
-  - unfold do_validate in H. destruct (negb (parse_ok c)); [injection H as <- <-; exact W|].
-    destruct (exec_effs step e (c_effs c) g l0) as [[r1 g1] l] eqn:E1.
-    injection H as <- <-. unfold wf. rewrite (x_insts _ _ _ (exec_effs_ext _ _ _ _ _ _ _ _ E1)). exact W.
+  - eapply VL; eauto.
 Qed.
 
-(* ------------------------------------------------------------------ harmless failures are the identity *)
+(* a failed attempt gives the socket table back exactly *)
+Lemma failed_attempt_socks m step e c g r g' :
+  socks_ok g -> attempt m step e c g = (r, g') -> r <> ROk ->
+  g_socks g' = g_socks g /\ g_next g' = g_next g.
+Proof.
+  assert (VL : forall g r g', do_validate step e c g = (r, g') -> g_socks g' = g_socks g /\ g_next g' = g_next g).
+  { clear. intros g r g' H. pose proof (proj1 (do_validate_ext _ _ _ _ _ _ H)) as X.
+    split; [exact (x_socks _ _ _ X)|exact (x_next _ _ _ X)]. }
+  assert (RL : forall g r g', socks_ok g -> do_reload step e c g = (r, g') -> r <> ROk ->
+               g_socks g' = g_socks g /\ g_next g' = g_next g).
+  { clear. intros g r g' T H NR. unfold do_reload in H.
+    destruct (g_insts g) as [|old rest]; [injection H as <- <-; split; reflexivity|].
+    destruct (start_with step e c (i_servers old) g) as [[r1 g1] oi] eqn:S.
+    destruct (start_with_socks _ _ _ _ _ _ _ _ T S) as (_ & _ & KO).
+    destruct r1; [destruct (start_with_ok_some _ _ _ _ _ _ _ S) as [ni ->]; injection H as <- <-; congruence|..];
+      injection H as <- <-; apply KO; discriminate. }
+  destruct m; simpl; intros T H NR.
+  - unfold do_load in H. destruct (start_with step e c [] g) as [[r1 g1] oi] eqn:S.
+    destruct (start_with_socks _ _ _ _ _ _ _ _ T S) as (_ & _ & KO).
+    destruct r1; [destruct (start_with_ok_some _ _ _ _ _ _ _ S) as [ni ->]; injection H as <- <-; congruence|..];
+      injection H as <- <-; apply KO; discriminate.
+  - eapply VL; eauto.
+  - eapply RL; eauto.
+  - unfold do_sigusr1 in H. destruct (g_insts g) as [|old rest] eqn:GI; [injection H as <- <-; split; reflexivity|].
+    destruct (do_reload step e c (set_hooks g [])) as [r1 g1] eqn:R.
+    assert (r1 <> ROk) as NR1 by (destruct r1; injection H as <- <-; congruence).
+    assert (T' : socks_ok (set_hooks g [])) by exact T.
+    destruct (RL _ _ _ T' R NR1) as [A B]. simpl in A, B.
+    destruct r1; injection H as <- <-; try congruence; simpl; split; assumption.
+  - eapply VL; eauto.
+Qed.
+
+(* ------------------------------------------------------------------ harmless failures change the cache at most *)
+
+Lemma start_with_no_log_rollers step e c old g r g' oi :
+  no_log (c_effs c) = true -> start_with step e c old g = (r, g', oi) -> g_rollers g' = g_rollers g.
+Proof.
+  unfold start_with. intros NL H.
+  destruct (start_body step e c old g) as [[r0 gb] oi0] eqn:B.
+  assert (RB : g_rollers gb = g_rollers g).
+  { revert B. unfold start_body.
+    destruct (negb (parse_ok c)); [intros B; injection B as <- <- <-; reflexivity|].
+    destruct (exec_effs step e (c_effs c) g l0) as [[r1 g1] l] eqn:E1.
+    pose proof (x_rollers _ _ _ (exec_effs_ext _ _ _ _ _ _ _ _ E1)) as R1.
+    pose proof (exec_effs_no_log_startups _ _ _ _ _ _ _ _ NL E1) as SU. simpl in SU.
+    destruct r1; try (intros B; injection B as <- <- <-; exact R1).
+    rewrite SU. simpl.
+    destruct (start_servers old (c_addrs c) g1 []) as [[r3 g3] srv] eqn:E3.
+    pose proof (s_rollers _ _ (proj1 (start_servers_sext _ _ _ _ _ _ _ E3))) as R3.
+    destruct r3; intros B; injection B as <- <- <-; simpl; congruence. }
+  destruct r0; injection H as <- <- <-; exact RB.
+Qed.
 
 Lemma start_with_harmless step e c old g r g' oi :
-  no_auth (c_effs c) = true -> no_log (c_effs c) = true -> listen_safe (c_addrs c) = true ->
-  inherited ABusy old = None ->
-  start_with step e c old g = (r, g', oi) -> r <> ROk ->
-  g_insts g' = g_insts g /\ g_htcache g' = g_htcache g /\ g_htlock g' = g_htlock g /\
-  g_rollers g' = g_rollers g /\ g_socks g' = g_socks g /\ g_next g' = g_next g /\
-  (no_on (c_effs c) = true -> g_hooks g' = g_hooks g).
+  socks_ok g -> no_log (c_effs c) = true ->
+  start_with step e c old g = (r, g', oi) -> r <> ROk -> same_but_cache g g'.
 Proof.
-  unfold start_with. intros NA NL LS NI H NR.
-  destruct (negb (parse_ok c)); [injection H as <- <- <-; repeat split; auto|].
-  destruct (exec_effs step e (c_effs c) g l0) as [[r1 g1] l] eqn:E1.
-  pose proof (exec_effs_ext _ _ _ _ _ _ _ _ E1) as X.
-  pose proof (exec_effs_no_auth_same _ _ _ _ _ _ _ _ NA E1) as [C1 L1].
-  pose proof (exec_effs_no_log_startups _ _ _ _ _ _ _ _ NL E1) as SU. simpl in SU.
-  assert (F1 : g_insts g1 = g_insts g /\ g_htcache g1 = g_htcache g /\ g_htlock g1 = g_htlock g /\
-               g_rollers g1 = g_rollers g /\ g_socks g1 = g_socks g /\ g_next g1 = g_next g /\
-               (no_on (c_effs c) = true -> g_hooks g1 = g_hooks g)).
-  { destruct X. repeat split; auto. intros NO. eapply exec_effs_hooks_same; eauto. }
-  destruct r1; try (injection H as <- <- <-; exact F1).
-  rewrite SU in H. simpl in H.
-  destruct (start_servers old (c_addrs c) g1 []) as [[r3 g3] srv] eqn:E3.
-  assert (r3 <> ROk) as NR3 by (destruct r3; injection H as <- <- <-; congruence).
-  pose proof (start_servers_safe _ _ _ _ _ _ _ LS NI E3 NR3) as ->.
-  destruct r3; injection H as <- <- <-; exact F1.
+  intros T NL H NR.
+  pose proof (start_with_grow _ _ _ _ _ _ _ _ H) as G.
+  destruct (start_with_socks _ _ _ _ _ _ _ _ T H) as (_ & _ & KO). destruct (KO NR) as [KS KN].
+  pose proof (start_with_hooks _ _ _ _ _ _ _ _ H NR) as HK.
+  pose proof (start_with_no_log_rollers _ _ _ _ _ _ _ _ NL H) as RL.
+  destruct G. repeat split; assumption.
+Qed.
+
+Lemma same_but_cache_refl g : same_but_cache g g.
+Proof. repeat split; reflexivity. Qed.
+
+Lemma same_but_cache_trans a b c : same_but_cache a b -> same_but_cache b c -> same_but_cache a c.
+Proof.
+  intros (A1 & A2 & A3 & A4 & A5 & A6) (B1 & B2 & B3 & B4 & B5 & B6). repeat split; congruence.
 Qed.
 
 Theorem failed_harmless0_identity m step e c g r g' :
-  wf g -> harmless0 m c = true -> attempt m step e c g = (r, g') -> r <> ROk -> g' = g.
+  wf g -> harmless0 m c = true -> attempt m step e c g = (r, g') -> r <> ROk -> same_but_cache g g'.
 Proof.
-  intros W HM H NR. unfold harmless0 in HM.
-  apply andb_true_iff in HM as [HM H3]. apply andb_true_iff in HM as [H1 H2].
-  assert (RL : forall g r g', wf g -> no_log (c_effs c) = true -> listen_safe (c_addrs c) = true ->
-            do_reload step e c g = (r, g') -> r <> ROk ->
-            g_insts g' = g_insts g /\ g_htcache g' = g_htcache g /\ g_htlock g' = g_htlock g /\
-            g_rollers g' = g_rollers g /\ g_socks g' = g_socks g /\ g_next g' = g_next g /\
-            (no_on (c_effs c) = true -> g_hooks g' = g_hooks g)).
-  { clear - H2. intros g r g' W NL LS H NR. unfold do_reload in H.
-    destruct (g_insts g) as [|old rest] eqn:GI; [injection H as <- <-; repeat split; auto|].
+  intros (W & T & C) HM H NR. unfold harmless0 in HM.
+  assert (VL : forall g r g', do_validate step e c g = (r, g') -> r <> ROk -> same_but_cache g g').
+  { clear. intros g r g' H NR.
+    destruct (do_validate_ext _ _ _ _ _ _ H) as (X & HK & _). destruct X.
+    repeat split; auto. }
+  assert (RL : forall g r g', socks_ok g -> no_log (c_effs c) = true ->
+            do_reload step e c g = (r, g') -> r <> ROk -> same_but_cache g g').
+  { clear. intros g r g' T NL H NR. unfold do_reload in H.
+    destruct (g_insts g) as [|old rest] eqn:GI; [injection H as <- <-; apply same_but_cache_refl|].
     destruct (start_with step e c (i_servers old) g) as [[r1 g1] oi] eqn:S.
-    assert (NI : inherited ABusy (i_servers old) = None).
-    { apply inherited_busy_none. apply W. rewrite GI. left. reflexivity. }
     assert (NR1 : r1 <> ROk).
     { intros ->. destruct (start_with_ok_some _ _ _ _ _ _ _ S) as [ni ->]. injection H as <- <-. congruence. }
-    pose proof (start_with_harmless _ _ _ _ _ _ _ _ H2 NL LS NI S NR1) as F. rewrite GI in F.
+    pose proof (start_with_harmless _ _ _ _ _ _ _ _ T NL S NR1) as F.
     destruct r1; [congruence|..]; injection H as <- <-; exact F. }
   destruct m; simpl in H.
-  - apply andb_true_iff in H3 as [NL LS].
-    unfold do_load in H. destruct (start_with step e c [] g) as [[r1 g1] oi] eqn:S.
+  - unfold do_load in H. destruct (start_with step e c [] g) as [[r1 g1] oi] eqn:S.
     assert (NR1 : r1 <> ROk).
     { intros ->. destruct (start_with_ok_some _ _ _ _ _ _ _ S) as [ni ->]. injection H as <- <-. congruence. }
-    destruct (start_with_harmless step e c [] g r1 g1 oi H2 NL LS eq_refl S NR1) as (A1 & A2 & A3 & A4 & A5 & A6 & A7).
-    assert (g1 = g) as -> by (apply gstate_eq; auto).
-    destruct r1; [congruence|..]; injection H as <- <-; reflexivity.
-  - unfold do_validate in H. destruct (negb (parse_ok c)); [injection H as <- <-; reflexivity|].
-    destruct (exec_effs step e (c_effs c) g l0) as [[r1 g1] l] eqn:E1.
-    injection H as <- <-.
-    pose proof (exec_effs_ext _ _ _ _ _ _ _ _ E1) as X.
-    pose proof (exec_effs_no_auth_same _ _ _ _ _ _ _ _ H2 E1) as [C1 L1].
-    pose proof (exec_effs_hooks_same _ _ _ _ _ _ _ _ H1 E1) as K1.
-    destruct X. apply gstate_eq; auto.
-  - apply andb_true_iff in H3 as [NL LS].
-    destruct (RL _ _ _ W NL LS H NR) as (A1 & A2 & A3 & A4 & A5 & A6 & A7).
-    apply gstate_eq; auto.
-  - apply andb_true_iff in H3 as [NL LS].
-    unfold do_sigusr1 in H. destruct (g_insts g) as [|old rest] eqn:GI; [injection H as <- <-; reflexivity|].
+    pose proof (start_with_harmless step e c [] g r1 g1 oi T HM S NR1) as F.
+    destruct r1; [congruence|..]; injection H as <- <-; exact F.
+  - eapply VL; eauto.
+  - eapply RL; eauto.
+  - unfold do_sigusr1 in H. destruct (g_insts g) as [|old rest] eqn:GI; [injection H as <- <-; apply same_but_cache_refl|].
     destruct (do_reload step e c (set_hooks g [])) as [r1 g1] eqn:R.
     assert (r1 <> ROk) as NR1 by (destruct r1; injection H as <- <-; congruence).
-    assert (W' : wf (set_hooks g [])) by exact W.
-    destruct (RL _ _ _ W' NL LS R NR1) as (A1 & A2 & A3 & A4 & A5 & A6 & A7). simpl in *.
-    destruct r1; injection H as <- <-; try congruence; apply gstate_eq; simpl; auto.
-  - unfold do_validate in H. destruct (negb (parse_ok c)); [injection H as <- <-; reflexivity|].
-    destruct (exec_effs step e (c_effs c) g l0) as [[r1 g1] l] eqn:E1.
-    injection H as <- <-.
-    pose proof (exec_effs_ext _ _ _ _ _ _ _ _ E1) as X.
-    pose proof (exec_effs_no_auth_same _ _ _ _ _ _ _ _ H2 E1) as [C1 L1].
-    pose proof (exec_effs_hooks_same _ _ _ _ _ _ _ _ H1 E1) as K1.
-    destruct X. apply gstate_eq; auto.
+    assert (T' : socks_ok (set_hooks g [])) by exact T.
+    destruct (RL _ _ _ T' HM R NR1) as (A1 & A2 & A3 & A4 & A5 & A6). simpl in *.
+    destruct r1; injection H as <- <-; try congruence; repeat split; simpl; auto.
+  - eapply VL; eauto.
 Qed.
 
 (* an attempt does what it does on the part of the configuration it reaches *)
@@ -706,16 +1024,20 @@ Lemma parse_ok_reached c : negb (parse_ok c) = true ->
   parse_ok {| c_id := c_id c; c_parse := c_parse c; c_effs := []; c_addrs := [] |} = parse_ok c.
 Proof. reflexivity. Qed.
 
-Lemma start_with_reached step e c old g :
-  start_with step e c old g = start_with step e (reached c) old g.
+Lemma start_body_reached step e c old g :
+  start_body step e c old g = start_body step e (reached c) old g.
 Proof.
   unfold reached. destruct (negb (parse_ok c)) eqn:P.
-  - unfold start_with. rewrite P. unfold parse_ok in *. simpl. rewrite P. reflexivity.
+  - unfold start_body. rewrite P. unfold parse_ok in *. simpl. rewrite P. reflexivity.
   - destruct (cut_bad (c_effs c)) as [pre bad] eqn:CB. destruct bad; [|reflexivity].
-    unfold start_with. rewrite P. simpl.
+    unfold start_body. rewrite P. simpl.
     destruct (exec_cut step e (c_effs c) pre g l0 l0 CB) as (r & g' & la & lb & E1 & E2 & NR).
     rewrite E1, E2. destruct r; [congruence|reflexivity|reflexivity].
 Qed.
+
+Lemma start_with_reached step e c old g :
+  start_with step e c old g = start_with step e (reached c) old g.
+Proof. unfold start_with. rewrite start_body_reached. reflexivity. Qed.
 
 Lemma do_validate_reached step e c g :
   do_validate step e c g = do_validate step e (reached c) g.
@@ -747,20 +1069,173 @@ Proof.
 Qed.
 
 Theorem failed_harmless_identity m step e c g r g' :
-  wf g -> harmless m c = true -> attempt m step e c g = (r, g') -> r <> ROk -> g' = g.
+  wf g -> harmless m c = true -> attempt m step e c g = (r, g') -> r <> ROk -> same_but_cache g g'.
 Proof.
   intros W HM H NR. rewrite attempt_reached in H.
   eapply failed_harmless0_identity; eauto.
 Qed.
 
+(* ------------------------------------------------------------------ the htpasswd cache is transparent *)
+(* whatever an attempt does from a state, it does from the state with ANY other cache of parsed files: same
+   outcome, same resulting state up to what the cache holds *)
+Lemma get_matcher_any_cache e g f u r g' o :
+  cache_okl (g_htcache g) -> get_matcher e g f u = (r, g', o) ->
+  forall C, cache_okl C -> exists C', cache_okl C' /\ get_matcher e (set_htcache g C) f u = (r, set_htcache g' C', o).
+Proof.
+  intros CK H C CC. destruct (g_htlock g) eqn:L.
+  - unfold get_matcher, get_matcher_gen in *. simpl. rewrite L in *. injection H as <- <- <-.
+    exists C. split; [exact CC|reflexivity].
+  - destruct (get_matcher_spec _ _ _ _ _ _ _ L CK H) as (V & _ & _ & c' & ->).
+    destruct (get_matcher e (set_htcache g C) f u) as [[r2 g2] o2] eqn:M2.
+    assert (L2 : g_htlock (set_htcache g C) = false) by exact L.
+    destruct (get_matcher_spec _ _ _ _ _ _ _ L2 CC M2) as (V2 & _ & C2 & c2 & ->).
+    rewrite <- V in V2. injection V2 as -> ->.
+    exists c2. split; [exact C2|reflexivity].
+Qed.
+
+Lemma exec_effs_any_cache step e effs : forall g l r g' l',
+  cache_okl (g_htcache g) -> exec_effs step e effs g l = (r, g', l') ->
+  forall C, cache_okl C ->
+  exists C', cache_okl C' /\ exec_effs step e effs (set_htcache g C) l = (r, set_htcache g' C', l').
+Proof.
+  induction effs as [|x effs IH]; intros g l r g' l' CK H C CC; simpl in H |- *.
+  - injection H as <- <- <-. exists C. split; [exact CC|reflexivity].
+  - destruct x as [|n|f size ok|f u].
+    + injection H as <- <- <-. exists C. split; [exact CC|reflexivity].
+    + exact (IH (set_hooks g (g_hooks g ++ repeat step n)) _ _ _ _ CK H C CC).
+    + exact (IH _ _ _ _ _ CK H C CC).
+    + destruct (get_matcher e g f u) as [[r1 g1] o1] eqn:M.
+      pose proof (get_matcher_cache_ok _ _ _ _ _ _ _ CK M) as CK1.
+      destruct (get_matcher_any_cache _ _ _ _ _ _ _ CK M C CC) as (C1 & CC1 & M2). rewrite M2.
+      destruct r1.
+      * destruct o1 as [pw|].
+        -- exact (IH _ _ _ _ _ CK1 H C1 CC1).
+        -- injection H as <- <- <-. exists C1. split; [exact CC1|reflexivity].
+      * injection H as <- <- <-. exists C1. split; [exact CC1|reflexivity].
+      * injection H as <- <- <-. exists C1. split; [exact CC1|reflexivity].
+Qed.
+
+Lemma add_roller_any_cache g f size C : add_roller (set_htcache g C) f size = set_htcache (add_roller g f size) C.
+Proof. unfold add_roller. simpl. destruct (assoc f (g_rollers g)); reflexivity. Qed.
+
+Lemma run_startups_any_cache cbs : forall g r g' C,
+  run_startups cbs g = (r, g') -> run_startups cbs (set_htcache g C) = (r, set_htcache g' C).
+Proof.
+  induction cbs as [|[[f size] ok] cbs IH]; intros g r g' C H; simpl in H |- *.
+  - injection H as <- <-. reflexivity.
+  - destruct ok.
+    + rewrite add_roller_any_cache. apply IH. exact H.
+    + injection H as <- <-. reflexivity.
+Qed.
+
+Lemma start_servers_any_cache old addrs : forall g acc r g' srv C,
+  start_servers old addrs g acc = (r, g', srv) ->
+  start_servers old addrs (set_htcache g C) acc = (r, set_htcache g' C, srv).
+Proof.
+  induction addrs as [|a addrs IH]; intros g acc r g' srv C H; simpl in H |- *.
+  - injection H as <- <- <-. reflexivity.
+  - destruct (inherited a old) as [sid|].
+    + exact (IH _ _ _ _ _ C H).
+    + destruct a as [n|].
+      * exact (IH _ _ _ _ _ C H).
+      * injection H as <- <- <-. reflexivity.
+Qed.
+
+Lemma start_with_any_cache step e c old g r g' oi :
+  cache_okl (g_htcache g) -> start_with step e c old g = (r, g', oi) ->
+  forall C, cache_okl C ->
+  exists C', cache_okl C' /\ start_with step e c old (set_htcache g C) = (r, set_htcache g' C', oi).
+Proof.
+  unfold start_with. intros CK H C CC.
+  destruct (start_body step e c old g) as [[r0 gb] oi0] eqn:B.
+  assert (BB : exists C', cache_okl C' /\ start_body step e c old (set_htcache g C) = (r0, set_htcache gb C', oi0)).
+  { revert B. unfold start_body.
+    destruct (negb (parse_ok c)); [intros B; injection B as <- <- <-; exists C; split; [exact CC|reflexivity]|].
+    destruct (exec_effs step e (c_effs c) g l0) as [[r1 g1] l] eqn:E1.
+    destruct (exec_effs_any_cache _ _ _ _ _ _ _ _ CK E1 C CC) as (C1 & CC1 & E2). rewrite E2.
+    destruct r1; try (intros B; injection B as <- <- <-; exists C1; split; [exact CC1|reflexivity]).
+    destruct (run_startups (l_startups l) g1) as [r2 g2] eqn:S1.
+    rewrite (run_startups_any_cache _ _ _ _ C1 S1).
+    destruct r2; try (intros B; injection B as <- <- <-; exists C1; split; [exact CC1|reflexivity]).
+    destruct (start_servers old (c_addrs c) g2 []) as [[r3 g3] srv] eqn:S2.
+    rewrite (start_servers_any_cache _ _ _ _ _ _ _ C1 S2).
+    destruct r3; intros B; injection B as <- <- <-; exists C1; split; try exact CC1; reflexivity. }
+  destruct BB as (C1 & CC1 & B2). rewrite B2.
+  destruct r0; injection H as <- <- <-; exists C1; split; try exact CC1; reflexivity.
+Qed.
+
+Lemma do_validate_any_cache step e c g r g' :
+  cache_okl (g_htcache g) -> do_validate step e c g = (r, g') ->
+  forall C, cache_okl C ->
+  exists C', cache_okl C' /\ do_validate step e c (set_htcache g C) = (r, set_htcache g' C').
+Proof.
+  unfold do_validate. intros CK H C CC.
+  destruct (negb (parse_ok c)); [injection H as <- <-; exists C; split; [exact CC|reflexivity]|].
+  destruct (exec_effs step e (c_effs c) g l0) as [[r1 g1] l] eqn:E1.
+  destruct (exec_effs_any_cache _ _ _ _ _ _ _ _ CK E1 C CC) as (C1 & CC1 & E2). rewrite E2.
+  destruct r1; injection H as <- <-; exists C1; split; try exact CC1; reflexivity.
+Qed.
+
+Lemma do_reload_any_cache step e c g r g' :
+  cache_okl (g_htcache g) -> do_reload step e c g = (r, g') ->
+  forall C, cache_okl C ->
+  exists C', cache_okl C' /\ do_reload step e c (set_htcache g C) = (r, set_htcache g' C').
+Proof.
+  unfold do_reload. intros CK H C CC. simpl.
+  destruct (g_insts g) as [|old rest]; [injection H as <- <-; exists C; split; [exact CC|reflexivity]|].
+  destruct (start_with step e c (i_servers old) g) as [[r1 g1] oi] eqn:S.
+  destruct (start_with_any_cache _ _ _ _ _ _ _ _ CK S C CC) as (C1 & CC1 & S2). rewrite S2.
+  destruct r1; [destruct oi|..]; injection H as <- <-; exists C1; split; try exact CC1; reflexivity.
+Qed.
+
+Theorem attempt_any_cache m step e c g r g' :
+  cache_okl (g_htcache g) -> attempt m step e c g = (r, g') ->
+  forall C, cache_okl C ->
+  exists C', cache_okl C' /\ attempt m step e c (set_htcache g C) = (r, set_htcache g' C').
+Proof.
+  destruct m; simpl; intros CK H C CC.
+  - unfold do_load in *.
+    destruct (start_with step e c [] g) as [[r1 g1] oi] eqn:S.
+    destruct (start_with_any_cache _ _ _ _ _ _ _ _ CK S C CC) as (C1 & CC1 & S2). rewrite S2.
+    destruct r1; [destruct oi|..]; injection H as <- <-; exists C1; split; try exact CC1; reflexivity.
+  - eapply do_validate_any_cache; eauto.
+  - eapply do_reload_any_cache; eauto.
+  - unfold do_sigusr1 in *. simpl.
+    destruct (g_insts g) as [|old rest]; [injection H as <- <-; exists C; split; [exact CC|reflexivity]|].
+    destruct (do_reload step e c (set_hooks g [])) as [r1 g1] eqn:R.
+    assert (CK' : cache_okl (g_htcache (set_hooks g []))) by exact CK.
+    destruct (do_reload_any_cache _ _ _ _ _ _ CK' R C CC) as (C1 & CC1 & R2).
+    change (set_hooks (set_htcache g C) []) with (set_htcache (set_hooks g []) C). rewrite R2.
+    destruct r1; injection H as <- <-; exists C1; split; try exact CC1; reflexivity.
+  - eapply do_validate_any_cache; eauto.
+Qed.
+
+Lemma same_but_cache_set g g2 : same_but_cache g g2 -> g2 = set_htcache g (g_htcache g2).
+Proof. intros (A1 & A2 & A3 & A4 & A5 & A6). apply gstate_eq; simpl; auto. Qed.
+
+Lemma same_but_cache_set_htcache g C : same_but_cache g (set_htcache g C).
+Proof. repeat split; reflexivity. Qed.
+
+Theorem attempt_ignores_cache m step e c g1 g2 r g1' :
+  cache_ok g1 -> cache_ok g2 -> same_but_cache g1 g2 -> attempt m step e c g1 = (r, g1') ->
+  exists g2', attempt m step e c g2 = (r, g2') /\ same_but_cache g1' g2' /\ cache_ok g2'.
+Proof.
+  intros C1 C2 SB H.
+  destruct (attempt_any_cache _ _ _ _ _ _ _ C1 H (g_htcache g2) C2) as (C' & CC' & A).
+  rewrite <- (same_but_cache_set _ _ SB) in A.
+  eexists. split; [exact A|]. split; [apply same_but_cache_set_htcache|exact CC'].
+Qed.
+
 (* ------------------------------------------------------------------ histories *)
 
+(* over all histories of failed attempts and file rewrites: nothing but the (transparent) cache has changed,
+   so every later attempt has the outcome and the effect it has without the failures *)
 Theorem run_harmless_failures_identity h : forall step e g rs e' g',
   wf g -> forallb harmless_op h = true -> run step h (e, g) = (rs, (e', g')) ->
-  attempts_failed h rs -> g' = g /\ e' = writes h e.
+  attempts_failed h rs -> same_but_cache g g' /\ wf g' /\ e' = writes h e.
 Proof.
   induction h as [|o h IH]; intros step e g rs e' g' W HH R AF; simpl in R.
-  - injection R as <- <- <-. split; reflexivity.
+  - injection R as <- <- <-. split; [apply same_but_cache_refl|]. split; [exact W|reflexivity].
   - simpl in HH. apply andb_true_iff in HH as [HO HH].
     destruct (step_op step o (e, g)) as [x [e1 g1]] eqn:S.
     destruct (run (step + 1) h (e1, g1)) as [xs [e2 g2]] eqn:R2.
@@ -768,9 +1243,36 @@ Proof.
     destruct o as [m c|f hf]; simpl in S.
     + destruct (attempt m step e c g) as [r ga] eqn:A. injection S as <- <- <-.
       simpl in AF. destruct AF as [NR AF].
-      pose proof (failed_harmless_identity _ _ _ _ _ _ _ W HO A NR) as ->.
-      simpl. eapply IH; eauto.
+      pose proof (failed_harmless_identity _ _ _ _ _ _ _ W HO A NR) as SB.
+      pose proof (attempt_wf _ _ _ _ _ _ _ W A) as Wa.
+      destruct (IH _ _ _ _ _ _ Wa HH R2 AF) as (SB2 & W2 & E2).
+      split; [eapply same_but_cache_trans; eauto|]. split; [exact W2|exact E2].
     + injection S as <- <- <-. simpl in AF. simpl. eapply IH; eauto.
+Qed.
+
+Theorem valid_after_harmless_failures h step0 e g rs e' g' :
+  wf g -> forallb harmless_op h = true ->
+  run step0 h (e, g) = (rs, (e', g')) -> attempts_failed h rs ->
+  same_but_cache g g' /\ e' = writes h e /\
+  forall m step v r ga, attempt m step (writes h e) v g = (r, ga) ->
+  exists gb, attempt m step e' v g' = (r, gb) /\ same_but_cache ga gb.
+Proof.
+  intros W HH R AF.
+  destruct (run_harmless_failures_identity h step0 e g rs e' g' W HH R AF) as (SB & W' & ->).
+  split; [exact SB|]. split; [reflexivity|].
+  intros m step v r ga A.
+  destruct W as (_ & _ & C). destruct W' as (_ & _ & C').
+  destruct (attempt_ignores_cache m step (writes h e) v g g' r ga C C' SB A) as (gb & A' & SB' & _).
+  exists gb. split; assumption.
+Qed.
+
+Theorem matcher_answers_from_the_file e g f u r g' o :
+  g_htlock g = false -> cache_ok g -> get_matcher e g f u = (r, g', o) ->
+  (r, o) = lookup_now e f u /\ same_but_cache g g' /\ cache_ok g'.
+Proof.
+  intros L C H.
+  destruct (get_matcher_spec e g f u r g' o L C H) as (A & X & C1 & _).
+  split; [exact A|]. split; [|exact C1]. destruct X. repeat split; assumption.
 Qed.
 
 (* the mutex is free after every history, and no attempt of any history ever blocks *)
@@ -809,21 +1311,34 @@ Proof.
 Qed.
 
 Lemma wf_g0 : wf g0.
-Proof. intros i []. Qed.
+Proof. split; [intros i []|split; [intros s []|intros f h; discriminate]]. Qed.
 
 (* ------------------------------------------------------------------ running sites are untouched *)
 
 Theorem failed_attempt_sites_untouched m step e c g r g' :
-  attempt m step e c g = (r, g') -> r <> ROk ->
+  wf g -> attempt m step e c g = (r, g') -> r <> ROk ->
   g_insts g' = g_insts g /\
   (forall i, In i (g_insts g) -> alive g i -> alive g' i) /\
   (forall i x, In i (g_insts g) -> roller_of g i = Some x -> roller_of g' i = Some x).
 Proof.
-  intros H NR. destruct (failed_attempt_grow _ _ _ _ _ _ _ H NR) as [G1 G2 G3 G4 G5 G6].
+  intros (W & T & C) H NR. destruct (failed_attempt_grow _ _ _ _ _ _ _ H NR) as [G1 G2 G3 G5].
+  destruct (failed_attempt_socks _ _ _ _ _ _ _ T H NR) as [S1 _].
   split; [exact G1|]. split.
-  - intros i Hi AL a sid Hin. destruct (AL a sid Hin) as (s & I1 & I2 & I3).
-    destruct (G6 s I1) as (s' & J1 & J2 & J3 & J4). exists s'. repeat split; auto; try congruence. lia.
+  - intros i Hi AL a sid Hin. unfold alive in AL. rewrite S1. exact (AL a sid Hin).
   - intros i x Hi. unfold roller_of. destruct (i_log i); [apply G5|discriminate].
+Qed.
+
+(* ... and loses nothing *)
+Theorem failed_attempt_loses_nothing m step e c g r g' :
+  wf g -> attempt m step e c g = (r, g') -> r <> ROk ->
+  g_insts g' = g_insts g /\ g_htlock g' = g_htlock g /\
+  g_hooks g' = g_hooks g /\
+  (forall f x, assoc f (g_rollers g) = Some x -> assoc f (g_rollers g') = Some x) /\
+  g_socks g' = g_socks g.
+Proof.
+  intros (W & T & C) H NR. destruct (failed_attempt_grow _ _ _ _ _ _ _ H NR) as [G1 G2 G3 G5].
+  destruct (failed_attempt_socks _ _ _ _ _ _ _ T H NR) as [S1 _].
+  pose proof (failed_attempt_hooks _ _ _ _ _ _ _ H NR) as HK. auto 10.
 Qed.
 
 (* ------------------------------------------------------------------ valid configurations load *)
@@ -831,14 +1346,13 @@ Qed.
 Definition all_ok (cbs : list (N * N * bool)) : Prop := forall t, In t cbs -> snd t = true.
 
 Lemma exec_effs_valid step e effs : forall g l,
-  g_htlock g = false -> forallb (eff_valid e) effs = true -> cache_fresh e g effs -> all_ok (l_startups l) ->
+  g_htlock g = false -> cache_okl (g_htcache g) -> forallb (eff_valid e) effs = true -> all_ok (l_startups l) ->
   exists g' l', exec_effs step e effs g l = (ROk, g', l') /\ all_ok (l_startups l') /\
                 l_auth l' = expected_auth e effs (l_auth l).
 Proof.
-  induction effs as [|x effs IH]; intros g l L V CF AO; simpl.
+  induction effs as [|x effs IH]; intros g l L CK V AO; simpl.
   - eauto.
   - simpl in V. apply andb_true_iff in V as [V1 V2].
-    assert (CF2 : cache_fresh e g effs) by (intros f u Hin; apply (CF f u); right; exact Hin).
     destruct x as [|n|f size ok|f u]; simpl in V1.
     + discriminate.
     + apply IH; auto.
@@ -847,25 +1361,16 @@ Proof.
       { simpl. intros t Hin. apply in_app_or in Hin as [Hin|[Hin|[]]]; [auto|]. subst t. simpl. exact V1. }
       exists g', l'. repeat split; auto.
     + apply andb_true_iff in V1 as [V1 V1c]. apply andb_true_iff in V1 as [V1a V1b].
-      unfold get_matcher, get_matcher_gen. rewrite L.
-      pose proof (CF f u (or_introl eq_refl)) as CFf.
-      assert (CF3 : forall f' u', In (EAuth f' u') effs ->
-                (if f' =? f then Some (h_users (env_get e f)) else assoc f' (g_htcache g)) = None \/
-                (if f' =? f then Some (h_users (env_get e f)) else assoc f' (g_htcache g)) = Some (h_users (env_get e f'))).
-      { intros f' u' Hin. destruct (f' =? f) eqn:E.
-        - apply N.eqb_eq in E. subst f'. right. reflexivity.
-        - apply (CF2 f' u'). exact Hin. }
-      remember (env_get e f) as hf eqn:Hhf.
-      destruct (assoc u (h_users hf)) as [pw|] eqn:AU; [|discriminate].
-      destruct CFf as [C|C]; rewrite C.
-      * rewrite V1a. apply negb_true_iff in V1b. rewrite V1b. cbn [negb].
-        match goal with |- context [exec_effs step e effs ?g1 ?l1] =>
-          destruct (IH g1 l1) as (g' & l' & E & A & B); auto end.
-        exists g', l'. repeat split; auto.
-      * rewrite AU.
-        match goal with |- context [exec_effs step e effs ?g1 ?l1] =>
-          destruct (IH g1 l1) as (g' & l' & E & A & B); auto end.
-        exists g', l'. repeat split; auto.
+      apply negb_true_iff in V1b.
+      destruct (get_matcher e g f u) as [[r1 g1] o1] eqn:M.
+      destruct (get_matcher_spec _ _ _ _ _ _ _ L CK M) as (LK & X & CK1 & _).
+      unfold lookup_now in LK. rewrite V1a, V1b in LK. cbn [negb] in LK.
+      destruct (assoc u (h_users (env_get e f))) as [pw|] eqn:AU; [|discriminate].
+      injection LK as -> ->.
+      match goal with |- context [exec_effs step e effs g1 ?l1] =>
+        destruct (IH g1 l1) as (g' & l' & E & A & B); auto end.
+      { rewrite (c_lock _ _ X). exact L. }
+      exists g', l'. repeat split; auto.
 Qed.
 
 Lemma run_startups_all_ok cbs : forall g, all_ok cbs -> exists g', run_startups cbs g = (ROk, g').
@@ -883,15 +1388,15 @@ Proof.
   destruct a; simpl in *; [reflexivity|discriminate].
 Qed.
 
-Lemma start_with_valid step e c old g :
-  g_htlock g = false -> cfg_valid e c = true -> cache_fresh e g (c_effs c) ->
-  exists g' ni, start_with step e c old g = (ROk, g', Some ni) /\ i_cfg ni = c_id c /\
+Lemma start_body_valid step e c old g :
+  g_htlock g = false -> cache_ok g -> cfg_valid e c = true ->
+  exists g' ni, start_body step e c old g = (ROk, g', Some ni) /\ i_cfg ni = c_id c /\
                 i_auth ni = expected_auth e (c_effs c) None.
 Proof.
-  intros L V CF. unfold cfg_valid in V.
+  intros L CK V. unfold cfg_valid in V.
   apply andb_true_iff in V as [V V4]. apply andb_true_iff in V as [V V3]. apply andb_true_iff in V as [V1 V2].
-  unfold start_with. rewrite V1. simpl.
-  destruct (exec_effs_valid step e (c_effs c) g l0 L V2 CF) as (g1 & l1 & E1 & AO & AU); [intros t []|].
+  unfold start_body. rewrite V1. simpl.
+  destruct (exec_effs_valid step e (c_effs c) g l0 L CK V2) as (g1 & l1 & E1 & AO & AU); [intros t []|].
   rewrite E1.
   destruct (run_startups_all_ok (l_startups l1) g1 AO) as (g2 & E2). rewrite E2.
   destruct (start_servers old (c_addrs c) g2 []) as [[r3 g3] srv] eqn:E3.
@@ -899,40 +1404,43 @@ Proof.
   eexists. eexists. split; [reflexivity|]. split; [reflexivity|exact AU].
 Qed.
 
+Lemma start_with_valid step e c old g :
+  g_htlock g = false -> cache_ok g -> cfg_valid e c = true ->
+  exists g' ni, start_with step e c old g = (ROk, g', Some ni) /\ i_cfg ni = c_id c /\
+                i_auth ni = expected_auth e (c_effs c) None.
+Proof.
+  intros L CK V. destruct (start_body_valid step e c old g L CK V) as (g1 & ni & B & I).
+  unfold start_with. rewrite B. eauto.
+Qed.
+
 Theorem valid_load_succeeds step e c g :
-  g_htlock g = false -> cfg_valid e c = true -> cache_fresh e g (c_effs c) ->
+  g_htlock g = false -> cache_ok g -> cfg_valid e c = true ->
   exists g' ni, do_load step e c g = (ROk, g') /\ g_insts g' = g_insts g ++ [ni] /\ i_cfg ni = c_id c /\
                 i_auth ni = expected_auth e (c_effs c) None.
 Proof.
-  intros L V CF. destruct (start_with_valid step e c [] g L V CF) as (g1 & ni & S & I).
+  intros L CK V. destruct (start_with_valid step e c [] g L CK V) as (g1 & ni & S & I).
   unfold do_load. rewrite S. eexists. exists ni. split; [reflexivity|]. split; [|exact I].
   simpl. rewrite (w_insts _ _ _ (start_with_grow _ _ _ _ _ _ _ _ S)). reflexivity.
 Qed.
 
 Theorem valid_reload_succeeds step e c g old rest :
-  g_htlock g = false -> g_insts g = old :: rest -> cfg_valid e c = true -> cache_fresh e g (c_effs c) ->
+  g_htlock g = false -> cache_ok g -> g_insts g = old :: rest -> cfg_valid e c = true ->
   exists g' ni, do_reload step e c g = (ROk, g') /\ g_insts g' = rest ++ [ni] /\ i_cfg ni = c_id c /\
                 i_auth ni = expected_auth e (c_effs c) None.
 Proof.
-  intros L GI V CF. destruct (start_with_valid step e c (i_servers old) g L V CF) as (g1 & ni & S & I).
+  intros L CK GI V. destruct (start_with_valid step e c (i_servers old) g L CK V) as (g1 & ni & S & I).
   unfold do_reload. rewrite GI, S. eexists. exists ni. split; [reflexivity|]. split; [reflexivity|exact I].
 Qed.
 
-Lemma no_auth_cache_fresh e g effs : no_auth effs = true -> cache_fresh e g effs.
-Proof.
-  intros NA f u Hin. unfold no_auth in NA. rewrite forallb_forall in NA.
-  specialize (NA _ Hin). discriminate.
-Qed.
-
-(* over ALL histories: the mutex invariant is all a valid configuration needs, besides a cache that is not
-   stale for the htpasswd files it uses *)
+(* over ALL histories: a valid configuration loads, whatever was attempted before *)
 Theorem valid_load_after_any_history h e rs e' g' step v :
   run 1 h (e, g0) = (rs, (e', g')) ->
-  cfg_valid e' v = true -> cache_fresh e' g' (c_effs v) ->
+  cfg_valid e' v = true ->
   exists g'' ni, do_load step e' v g' = (ROk, g'') /\ g_insts g'' = g_insts g' ++ [ni] /\ i_cfg ni = c_id v /\
                  i_auth ni = expected_auth e' (c_effs v) None.
 Proof.
-  intros R V CF. destruct (run_never_hangs h 1 e g0 rs e' g' eq_refl R) as [L _].
+  intros R V. destruct (run_never_hangs h 1 e g0 rs e' g' eq_refl R) as [L _].
+  destruct (run_wf h 1 e g0 rs e' g' wf_g0 R) as (_ & _ & CK).
   apply valid_load_succeeds; auto.
 Qed.
 
@@ -954,67 +1462,77 @@ Definition mkcfg (id : N) (effs : list effect) (addrs : list addr) : cfg :=
 Definition users (l : list (N * N)) : htfile := {| h_present := true; h_users := l; h_bad := false |}.
 
 Lemma frame_refuted :
-  (* hooks of a rejected configuration stay registered (load, validate, API reload) *)
-  (exists c g', attempt Load 1 [] c g0 = (RErr, g') /\ g_hooks g' <> g_hooks g0) /\
-  (exists c g', attempt Validate 1 [] c g0 = (RErr, g') /\ g_hooks g' <> g_hooks g0) /\
-  (exists c0 c g1 g', attempt Load 1 [] c0 g0 = (ROk, g1) /\ attempt Reload 2 [] c g1 = (RErr, g') /\
-                      g_hooks g' <> g_hooks g1) /\
-  (* a listener opened before the failing one stays open *)
-  (exists c g', attempt Load 1 [] c g0 = (RErr, g') /\ g_socks g' <> g_socks g0) /\
-  (exists c0 c g1 g', attempt Load 1 [] c0 g0 = (ROk, g1) /\ attempt Reload 2 [] c g1 = (RErr, g') /\
-                      sum_fds (g_socks g') <> sum_fds (g_socks g1)) /\
   (* roller settings of a rejected configuration are registered *)
-  (exists c g', attempt Load 1 [] c g0 = (RErr, g') /\ g_rollers g' <> g_rollers g0) /\
-  (* the htpasswd file read by a rejected configuration is cached *)
-  (exists e c g', attempt Load 1 e c g0 = (RErr, g') /\ g_htcache g' <> g_htcache g0).
+  exists c g', attempt Load 1 [] c g0 = (RErr, g') /\ g_rollers g' <> g_rollers g0.
 Proof.
-  repeat split.
-  - exists (mkcfg 1 [EOn 1; EBad] [AEph 1]). eexists. split; [vm_compute; reflexivity|discriminate].
-  - exists (mkcfg 1 [EOn 1; EAuth 2 1] [AEph 1]). eexists. split; [vm_compute; reflexivity|discriminate].
-  - exists (mkcfg 1 [] [AEph 1]), (mkcfg 2 [EOn 1; EBad] [AEph 1]). eexists. eexists.
-    split; [vm_compute; reflexivity|]. split; [vm_compute; reflexivity|discriminate].
-  - exists (mkcfg 1 [] [AEph 1; ABusy]). eexists. split; [vm_compute; reflexivity|discriminate].
-  - exists (mkcfg 1 [] [AEph 1]), (mkcfg 2 [] [AEph 1; ABusy]). eexists. eexists.
-    split; [vm_compute; reflexivity|]. split; [vm_compute; reflexivity|vm_compute; discriminate].
-  - exists (mkcfg 1 [ELog 1 1 true] [ABusy]). eexists. split; [vm_compute; reflexivity|discriminate].
-  - exists [(2, users [(2, 1)])], (mkcfg 1 [EAuth 2 1] [AEph 1]). eexists.
-    split; [vm_compute; reflexivity|discriminate].
+  exists (mkcfg 1 [ELog 1 1 true] [ABusy]). eexists. split; [vm_compute; reflexivity|discriminate].
 Qed.
 
-(* a valid configuration that would load in a fresh process does not load after a failed attempt *)
-Lemma valid_after_failures_refuted :
-  exists h e v rs e' g',
-    run 1 h (e, g0) = (rs, (e', g')) /\ attempts_failed h rs /\
-    cfg_valid e' v = true /\
-    fst (do_load 9 e' v g0) = ROk /\ fst (do_load 9 e' v g') = RErr.
+(* hooks registered by a rejected configuration are taken out again: load, validate, API-driven execute and
+   reload, SIGUSR1 *)
+Lemma hooks_restored_witness :
+  (exists g', attempt Load 1 [] (mkcfg 1 [EOn 1; EBad] [AEph 1]) g0 = (RErr, g') /\ g_hooks g' = []) /\
+  (exists g', attempt Validate 1 [] (mkcfg 1 [EOn 1; EAuth 2 1] [AEph 1]) g0 = (RErr, g') /\ g_hooks g' = []) /\
+  (exists g', attempt Execute 1 [] (mkcfg 1 [EOn 2; EBad] [AEph 1]) g0 = (RErr, g') /\ g_hooks g' = []) /\
+  (exists g', attempt Load 1 [] (mkcfg 1 [EOn 1] [AEph 1; ABusy]) g0 = (RErr, g') /\ g_hooks g' = []) /\
+  (exists g1 g2, attempt Load 1 [] (mkcfg 1 [EOn 1] [AEph 1]) g0 = (ROk, g1) /\
+                 attempt Reload 2 [] (mkcfg 2 [EOn 2; EBad] [AEph 1]) g1 = (RErr, g2) /\
+                 g_hooks g2 = [1] /\ g_hooks g1 = [1]) /\
+  (exists g1 g2, attempt Load 1 [] (mkcfg 1 [EOn 1] [AEph 1]) g0 = (ROk, g1) /\
+                 attempt Sigusr1 2 [] (mkcfg 2 [EOn 2; EBad] [AEph 1]) g1 = (RErr, g2) /\
+                 g_hooks g2 = [1] /\ g_hooks g1 = [1]).
 Proof.
-  exists [OAttempt Load (mkcfg 1 [EAuth 2 1] [AEph 1]); OWrite 2 (users [(1, 2); (2, 1)])],
-         [(2, users [(2, 1)])], (mkcfg 2 [EAuth 2 1] [AEph 1]).
-  eexists. eexists. eexists. split; [vm_compute; reflexivity|].
-  split; [simpl; split; [discriminate|exact I]|]. vm_compute. repeat split; reflexivity.
+  repeat split; try (eexists; vm_compute; split; reflexivity);
+    eexists; eexists; vm_compute; repeat split; reflexivity.
 Qed.
 
-(* ... or loads and behaves differently: rotates its log with the rejected settings / authenticates
-   against the old htpasswd contents *)
-Lemma valid_after_failures_behaviour_refuted :
-  (exists h v rs e' g' ga gb,
-     run 1 h ([], g0) = (rs, (e', g')) /\ attempts_failed h rs /\ cfg_valid e' v = true /\
-     do_load 9 e' v g0 = (ROk, ga) /\ do_load 9 e' v g' = (ROk, gb) /\ roll_view ga <> roll_view gb) /\
-  (exists h e v rs e' g' ga gb,
-     run 1 h (e, g0) = (rs, (e', g')) /\ attempts_failed h rs /\ cfg_valid e' v = true /\
-     do_load 9 e' v g0 = (ROk, ga) /\ do_load 9 e' v g' = (ROk, gb) /\
-     map auth_view (g_insts ga) <> map auth_view (g_insts gb)).
+(* the listeners a failing start opened before the failing one are closed again: the socket table and the
+   descriptor counts are exactly as before, on a fresh start and on a reload that inherits a listener *)
+Lemma listeners_closed_witness :
+  (exists g', attempt Load 1 [] (mkcfg 1 [] [AEph 1; ABusy]) g0 = (RErr, g') /\ g_socks g' = g_socks g0) /\
+  (exists g1 g', attempt Load 1 [] (mkcfg 1 [] [AEph 1]) g0 = (ROk, g1) /\
+                 attempt Reload 2 [] (mkcfg 2 [] [AEph 1; AEph 2; ABusy]) g1 = (RErr, g') /\
+                 g_socks g' = g_socks g1 /\ sum_fds (g_socks g1) = 1%nat).
 Proof.
   split.
-  - exists [OAttempt Load (mkcfg 1 [ELog 1 1 true] [ABusy])], (mkcfg 2 [ELog 1 50 true] [AEph 1]).
-    do 5 eexists. split; [vm_compute; reflexivity|].
-    split; [simpl; split; [discriminate|exact I]|].
-    split; [vm_compute; reflexivity|]. split; [vm_compute; reflexivity|].
-    split; [vm_compute; reflexivity|]. vm_compute. discriminate.
-  - exists [OAttempt Load (mkcfg 1 [EAuth 1 1; EBad] [AEph 1]); OWrite 1 (users [(1, 2)])],
-           [(1, users [(1, 1)])], (mkcfg 2 [EAuth 1 1] [AEph 1]).
-    do 5 eexists. split; [vm_compute; reflexivity|].
-    split; [simpl; split; [discriminate|exact I]|].
-    split; [vm_compute; reflexivity|]. split; [vm_compute; reflexivity|].
-    split; [vm_compute; reflexivity|]. vm_compute. discriminate.
+  - eexists. split; vm_compute; reflexivity.
+  - eexists. eexists. split; [vm_compute; reflexivity|]. split; [vm_compute; reflexivity|].
+    split; vm_compute; reflexivity.
+Qed.
+
+(* the three faces of the stale htpasswd cache are gone: after a failed attempt and a repair / change /
+   removal of the file, the next attempt sees the file as it is now *)
+Lemma htpasswd_cache_witness :
+  (* F-C08-4: the user is added after a failed load: the corrected configuration loads *)
+  (exists rs e' g', run 1 [OAttempt Load (mkcfg 1 [EAuth 2 1] [AEph 1]); OWrite 2 (users [(1, 2); (2, 1)])]
+                      ([(2, users [(2, 1)])], g0) = (rs, (e', g')) /\ rs = [RErr; ROk] /\
+                    fst (do_load 9 e' (mkcfg 2 [EAuth 2 1] [AEph 1]) g') = ROk) /\
+  (* F-C08-4b: the password is changed after a failed load: the new one is served *)
+  (exists rs e' g' gb, run 1 [OAttempt Load (mkcfg 1 [EAuth 1 1; EBad] [AEph 1]); OWrite 1 (users [(1, 2)])]
+                      ([(1, users [(1, 1)])], g0) = (rs, (e', g')) /\ rs = [RErr; ROk] /\
+                    do_load 9 e' (mkcfg 2 [EAuth 1 1] [AEph 1]) g' = (ROk, gb) /\
+                    map auth_view (g_insts gb) = [[4; 4; 2]]) /\
+  (* F-C08-4c: the file is removed after a validation read it: the configuration is rejected *)
+  (exists rs e' g', run 1 [OAttempt Validate (mkcfg 1 [EAuth 1 1] [AEph 1]); OWrite 1 ht_missing]
+                      ([(1, users [(1, 1)])], g0) = (rs, (e', g')) /\ rs = [ROk; ROk] /\
+                    fst (do_load 9 e' (mkcfg 2 [EAuth 1 1] [AEph 1]) g') = RErr).
+Proof.
+  split; [|split].
+  - do 3 eexists. vm_compute. repeat split; reflexivity.
+  - do 4 eexists. vm_compute. repeat split; reflexivity.
+  - do 3 eexists. vm_compute. repeat split; reflexivity.
+Qed.
+
+(* a valid configuration loads after a failed attempt but behaves differently from a fresh process: it
+   rotates its log with the settings of the rejected configuration *)
+Lemma valid_after_failures_behaviour_refuted :
+  exists h v rs e' g' ga gb,
+     run 1 h ([], g0) = (rs, (e', g')) /\ attempts_failed h rs /\ cfg_valid e' v = true /\
+     do_load 9 e' v g0 = (ROk, ga) /\ do_load 9 e' v g' = (ROk, gb) /\ roll_view ga <> roll_view gb.
+Proof.
+  exists [OAttempt Load (mkcfg 1 [ELog 1 1 true] [ABusy])], (mkcfg 2 [ELog 1 50 true] [AEph 1]).
+  do 5 eexists. split; [vm_compute; reflexivity|].
+  split; [simpl; split; [discriminate|exact I]|].
+  split; [vm_compute; reflexivity|]. split; [vm_compute; reflexivity|].
+  split; [vm_compute; reflexivity|]. vm_compute. discriminate.
 Qed.
